@@ -767,9 +767,9 @@ theorem lastMention_of_decomp {d : String} {pre post : List Layer} {a : Layer}
     Each clause is a restriction the unchanged code needs (see the `…_counterexample` theorems
     and the recorded findings). -/
 structure Tame (S : Scanners) (layers : List FSLayer) : Prop where
-  /-- a layer that carries a whiteout or a language package occurs once in the manifest
-      (empty or otherwise uninvolved layers may repeat) -/
-  hashes : ∀ l ∈ layers, (whiteoutsOf l ≠ [] ∨ langPkgs S l ≠ []) → (layers.map (·.hash)).count l.hash = 1
+  /-- the digest is a function of the content: layers with one digest have the same entries
+      (a layer may occur any number of times in the manifest) -/
+  digests : ∀ l ∈ layers, ∀ l' ∈ layers, l.hash = l'.hash → l.entries = l'.entries
   /-- a layer lists a path once -/
   paths : ∀ l ∈ layers, (l.entries.map (·.1)).Nodup
   /-- at most one whiteout entry per layer, and it is a regular file (finding whiteout-one-per-layer) -/
@@ -778,33 +778,42 @@ structure Tame (S : Scanners) (layers : List FSLayer) : Prop where
       the OCI cover relation, theorem `fileIsDeleted_eq_covers`) -/
   noRootOpaque : ∀ l ∈ layers, ∀ w ∈ whiteoutsOf l, ¬ (base w = opqName ∧ dir w = ".")
   /-- package files are hidden by whiteouts only (no file-replaces-directory games on their paths) -/
-  hidesSpec : ∀ l ∈ layers, ∀ l' ∈ layers, ∀ p ∈ langPkgs S l',
+  hidesSpec : ∀ l ∈ layers, ∀ l' ∈ layers, ∀ p ∈ allFilePkgs S l',
     hides l p.fp = (whiteoutFiles l).any fun w => covers w p.fp
   /-- an OS package database is never hidden and never lists nothing (findings os-db-removed, os-db-emptied) -/
   osDb : ∀ d ∈ S.allDbs, ∀ l ∈ layers, hides l d = false ∧ ∀ c ∈ fileOf l d, S.scanDB d c ≠ []
-  /-- a language package file is not overwritten by a later layer with another package, unless that
+  /-- a package file is not overwritten by a later layer with other packages, unless that
       layer also whites the old one out (finding lang-overwrite-in-place) -/
-  noOverwrite : layers.Pairwise fun l l' => ∀ e ∈ l.entries, ∀ c ∈ fileOf l e.1, ∀ p ∈ S.scanFile e.1 c,
-    ∀ c' ∈ fileOf l' e.1, (∃ p' ∈ S.scanFile e.1 c', p'.id = p.id) ∨ hides l' e.1 = true
-  /-- a language package id lives at one path (finding lang-same-package-two-paths) -/
-  onePath : ∀ l ∈ layers, ∀ l' ∈ layers, ∀ p ∈ langPkgs S l, ∀ p' ∈ langPkgs S l', p.id = p'.id → p.fp = p'.fp
-  /-- OS package ids and language package ids are different (in the real store they differ in arch / kind) -/
+  noOverwrite : ∀ E ∈ S.fecos, layers.Pairwise fun l l' => ∀ e ∈ l.entries, ∀ c ∈ fileOf l e.1, ∀ p ∈ E.scan e.1 c,
+    ∀ c' ∈ fileOf l' e.1, (∃ p' ∈ E.scan e.1 c', p'.id = p.id) ∨ hides l' e.1 = true
+  /-- within an ecosystem a package id lives at one path, in one package database
+      (finding lang-same-package-two-paths) -/
+  onePath : ∀ E ∈ S.fecos, ∀ l ∈ layers, ∀ l' ∈ layers, ∀ p ∈ filePkgs E l, ∀ p' ∈ filePkgs E l',
+    p.id = p'.id → p.fp = p'.fp ∧ p.db = p'.db
+  /-- OS package ids and file package ids are different (in the real store they differ in arch / kind) -/
   disjoint : ∀ d ∈ S.allDbs, ∀ l ∈ layers, ∀ c ∈ fileOf l d, ∀ p ∈ S.scanDB d c,
-    ∀ l' ∈ layers, ∀ p' ∈ langPkgs S l', p.id ≠ p'.id
+    ∀ l' ∈ layers, ∀ p' ∈ allFilePkgs S l', p.id ≠ p'.id
+  /-- two file ecosystems never find the same package id (finding lang-shared-id-across-ecosystems) -/
+  ecosApart : S.fecos.Pairwise (ecoApart layers)
+  /-- the package database of a Go executable's packages starts with `go:` (the gobin coalescer drops the others) -/
+  goDb : ∀ E ∈ S.fecos, E.gobin = true → ∀ l ∈ layers, ∀ p ∈ filePkgs E l, hasGoPrefix p.db = true
 
 /-- `Tame` is decidable: every clause is a bounded check over the stack. -/
 instance instDecidableTame (S : Scanners) (layers : List FSLayer) : Decidable (Tame S layers) :=
-  let A1 := ∀ l ∈ layers, (whiteoutsOf l ≠ [] ∨ langPkgs S l ≠ []) → (layers.map (·.hash)).count l.hash = 1
+  let A1 := ∀ l ∈ layers, ∀ l' ∈ layers, l.hash = l'.hash → l.entries = l'.entries
   let A2 := ∀ l ∈ layers, (l.entries.map (·.1)).Nodup
   let A3 := ∀ l ∈ layers, (whiteoutsOf l).length ≤ 1 ∧ whiteoutsOf l = whiteoutFiles l
   let A4 := ∀ l ∈ layers, ∀ w ∈ whiteoutsOf l, ¬ (base w = opqName ∧ dir w = ".")
-  let A5 := ∀ l ∈ layers, ∀ l' ∈ layers, ∀ p ∈ langPkgs S l', hides l p.fp = (whiteoutFiles l).any fun w => covers w p.fp
+  let A5 := ∀ l ∈ layers, ∀ l' ∈ layers, ∀ p ∈ allFilePkgs S l', hides l p.fp = (whiteoutFiles l).any fun w => covers w p.fp
   let A6 := ∀ d ∈ S.allDbs, ∀ l ∈ layers, hides l d = false ∧ ∀ c ∈ fileOf l d, S.scanDB d c ≠ []
-  let A7 := layers.Pairwise fun l l' => ∀ e ∈ l.entries, ∀ c ∈ fileOf l e.1, ∀ p ∈ S.scanFile e.1 c,
-      ∀ c' ∈ fileOf l' e.1, (∃ p' ∈ S.scanFile e.1 c', p'.id = p.id) ∨ hides l' e.1 = true
-  let A8 := ∀ l ∈ layers, ∀ l' ∈ layers, ∀ p ∈ langPkgs S l, ∀ p' ∈ langPkgs S l', p.id = p'.id → p.fp = p'.fp
+  let A7 := ∀ E ∈ S.fecos, layers.Pairwise fun l l' => ∀ e ∈ l.entries, ∀ c ∈ fileOf l e.1, ∀ p ∈ E.scan e.1 c,
+      ∀ c' ∈ fileOf l' e.1, (∃ p' ∈ E.scan e.1 c', p'.id = p.id) ∨ hides l' e.1 = true
+  let A8 := ∀ E ∈ S.fecos, ∀ l ∈ layers, ∀ l' ∈ layers, ∀ p ∈ filePkgs E l, ∀ p' ∈ filePkgs E l',
+      p.id = p'.id → p.fp = p'.fp ∧ p.db = p'.db
   let A9 := ∀ d ∈ S.allDbs, ∀ l ∈ layers, ∀ c ∈ fileOf l d, ∀ p ∈ S.scanDB d c,
-      ∀ l' ∈ layers, ∀ p' ∈ langPkgs S l', p.id ≠ p'.id
+      ∀ l' ∈ layers, ∀ p' ∈ allFilePkgs S l', p.id ≠ p'.id
+  let A10 := S.fecos.Pairwise (ecoApart layers)
+  let A11 := ∀ E ∈ S.fecos, E.gobin = true → ∀ l ∈ layers, ∀ p ∈ filePkgs E l, hasGoPrefix p.db = true
   have _d1 : Decidable A1 := inferInstance
   have _d2 : Decidable A2 := inferInstance
   have _d3 : Decidable A3 := inferInstance
@@ -814,24 +823,28 @@ instance instDecidableTame (S : Scanners) (layers : List FSLayer) : Decidable (T
   have _d7 : Decidable A7 := inferInstance
   have _d8 : Decidable A8 := inferInstance
   have _d9 : Decidable A9 := inferInstance
-  have _d89 : Decidable (A8 ∧ A9) := instDecidableAnd
-  have _d79 : Decidable (A7 ∧ A8 ∧ A9) := instDecidableAnd
-  have _d69 : Decidable (A6 ∧ A7 ∧ A8 ∧ A9) := instDecidableAnd
-  have _d59 : Decidable (A5 ∧ A6 ∧ A7 ∧ A8 ∧ A9) := instDecidableAnd
-  have _d49 : Decidable (A4 ∧ A5 ∧ A6 ∧ A7 ∧ A8 ∧ A9) := instDecidableAnd
-  have _d39 : Decidable (A3 ∧ A4 ∧ A5 ∧ A6 ∧ A7 ∧ A8 ∧ A9) := instDecidableAnd
-  have _d29 : Decidable (A2 ∧ A3 ∧ A4 ∧ A5 ∧ A6 ∧ A7 ∧ A8 ∧ A9) := instDecidableAnd
-  have _d19 : Decidable (A1 ∧ A2 ∧ A3 ∧ A4 ∧ A5 ∧ A6 ∧ A7 ∧ A8 ∧ A9) := instDecidableAnd
-  decidable_of_iff (A1 ∧ A2 ∧ A3 ∧ A4 ∧ A5 ∧ A6 ∧ A7 ∧ A8 ∧ A9)
-    ⟨fun ⟨a, b, c, d, e, f, g, h, i⟩ => ⟨a, b, c, d, e, f, g, h, i⟩,
-     fun ⟨a, b, c, d, e, f, g, h, i⟩ => ⟨a, b, c, d, e, f, g, h, i⟩⟩
+  have _d10 : Decidable A10 := inferInstance
+  have _d11 : Decidable A11 := inferInstance
+  have _e10 : Decidable (A10 ∧ A11) := instDecidableAnd
+  have _e9 : Decidable (A9 ∧ A10 ∧ A11) := instDecidableAnd
+  have _e8 : Decidable (A8 ∧ A9 ∧ A10 ∧ A11) := instDecidableAnd
+  have _e7 : Decidable (A7 ∧ A8 ∧ A9 ∧ A10 ∧ A11) := instDecidableAnd
+  have _e6 : Decidable (A6 ∧ A7 ∧ A8 ∧ A9 ∧ A10 ∧ A11) := instDecidableAnd
+  have _e5 : Decidable (A5 ∧ A6 ∧ A7 ∧ A8 ∧ A9 ∧ A10 ∧ A11) := instDecidableAnd
+  have _e4 : Decidable (A4 ∧ A5 ∧ A6 ∧ A7 ∧ A8 ∧ A9 ∧ A10 ∧ A11) := instDecidableAnd
+  have _e3 : Decidable (A3 ∧ A4 ∧ A5 ∧ A6 ∧ A7 ∧ A8 ∧ A9 ∧ A10 ∧ A11) := instDecidableAnd
+  have _e2 : Decidable (A2 ∧ A3 ∧ A4 ∧ A5 ∧ A6 ∧ A7 ∧ A8 ∧ A9 ∧ A10 ∧ A11) := instDecidableAnd
+  have _e1 : Decidable (A1 ∧ A2 ∧ A3 ∧ A4 ∧ A5 ∧ A6 ∧ A7 ∧ A8 ∧ A9 ∧ A10 ∧ A11) := instDecidableAnd
+  decidable_of_iff (A1 ∧ A2 ∧ A3 ∧ A4 ∧ A5 ∧ A6 ∧ A7 ∧ A8 ∧ A9 ∧ A10 ∧ A11)
+    ⟨fun ⟨a, b, c, d, e, f, g, h, i, j, k⟩ => ⟨a, b, c, d, e, f, g, h, i, j, k⟩,
+     fun ⟨a, b, c, d, e, f, g, h, i, j, k⟩ => ⟨a, b, c, d, e, f, g, h, i, j, k⟩⟩
 
 /-- the driver's Boolean check is the predicate `Tame` -/
 theorem tameB_iff (S : Scanners) (layers : List FSLayer) : tameB S layers = true ↔ Tame S layers := by
   unfold tameB
   simp only [Bool.and_eq_true, decide_eq_true_eq]
-  exact ⟨fun ⟨⟨⟨⟨⟨⟨⟨⟨a, b⟩, c⟩, d⟩, e⟩, f⟩, g⟩, h⟩, i⟩ => ⟨a, b, c, d, e, f, g, h, i⟩,
-    fun ⟨a, b, c, d, e, f, g, h, i⟩ => ⟨⟨⟨⟨⟨⟨⟨⟨a, b⟩, c⟩, d⟩, e⟩, f⟩, g⟩, h⟩, i⟩⟩
+  exact ⟨fun ⟨⟨⟨⟨⟨⟨⟨⟨⟨⟨a, b⟩, c⟩, d⟩, e⟩, f⟩, g⟩, h⟩, i⟩, j⟩, k⟩ => ⟨a, b, c, d, e, f, g, h, i, j, k⟩,
+    fun ⟨a, b, c, d, e, f, g, h, i, j, k⟩ => ⟨⟨⟨⟨⟨⟨⟨⟨⟨⟨a, b⟩, c⟩, d⟩, e⟩, f⟩, g⟩, h⟩, i⟩, j⟩, k⟩⟩
 
 theorem whiteoutsOf_isWhiteout {l : FSLayer} {w : String} (h : w ∈ whiteoutsOf l) : isWhiteout w = true := by
   unfold whiteoutsOf at h
@@ -850,25 +863,40 @@ theorem whiteoutsOf_isWhiteout {l : FSLayer} {w : String} (h : w ∈ whiteoutsOf
 
 /-- on a tame stack the resolver's test is the OCI cover relation, for every path -/
 theorem Tame.delSpec {S : Scanners} {layers : List FSLayer} (ht : Tame S layers) :
-    ∀ l ∈ layers, ∀ w ∈ whiteoutsOf l, fileIsDeleted "" w = false ∧
-      ∀ l' ∈ layers, ∀ p ∈ langPkgs S l', fileIsDeleted p.fp w = covers w p.fp :=
+    ∀ l ∈ layers, ∀ w ∈ whiteoutsOf l, fileIsDeleted "" w = false ∧ ∀ fp, fileIsDeleted fp w = covers w fp :=
   fun l hl w hw => ⟨fileIsDeleted_nofp w,
-    fun _ _ p _ => fileIsDeleted_eq_covers p.fp w (whiteoutsOf_isWhiteout hw) (ht.noRootOpaque l hl w hw)⟩
+    fun fp => fileIsDeleted_eq_covers fp w (whiteoutsOf_isWhiteout hw) (ht.noRootOpaque l hl w hw)⟩
 
-/-- a layer carrying a whiteout or a language package has a digest no other position of the manifest has -/
-theorem Tame.hash_once {S : Scanners} {layers : List FSLayer} (ht : Tame S layers)
-    {pre post : List FSLayer} {l : FSLayer} (hdec : layers = pre ++ l :: post)
-    (hl : whiteoutsOf l ≠ [] ∨ langPkgs S l ≠ []) :
-    l.hash ∉ pre.map (·.hash) ∧ l.hash ∉ post.map (·.hash) := by
-  have hc := ht.hashes l (by rw [hdec]; simp) hl
-  exact count_one_split (by rw [hdec]; simp) hc
+/-- everything the scanners read from a layer depends on its entries only -/
+theorem whiteoutsOf_congr {l l' : FSLayer} (h : l.entries = l'.entries) : whiteoutsOf l = whiteoutsOf l' := by
+  unfold whiteoutsOf; rw [h]
+
+theorem filePkgs_congr (E : FileEco) {l l' : FSLayer} (h : l.entries = l'.entries) : filePkgs E l = filePkgs E l' := by
+  unfold filePkgs; rw [h]
+
+/-- the last position of a digest in the manifest carries the same entries as any layer with that digest -/
+theorem Tame.last_of_hash {S : Scanners} {layers : List FSLayer} (ht : Tame S layers) {l : FSLayer} (hl : l ∈ layers) :
+    ∃ pre l' post, layers = pre ++ l' :: post ∧ l'.hash = l.hash ∧ l'.entries = l.entries ∧
+      l.hash ∉ post.map (·.hash) := by
+  have hm : l.hash ∈ layers.map (·.hash) := List.mem_map.2 ⟨l, hl, rfl⟩
+  obtain ⟨p1, p2, hdec, hnot⟩ := exists_last_occurrence hm
+  obtain ⟨pre, l', post, h1, _, h3, h4⟩ := map_decomp hdec
+  refine ⟨pre, l', post, h1, h3, ?_, by rw [h4]; exact hnot⟩
+  exact ht.digests l' (by rw [h1]; simp) l hl h3
 
 /-! ### artifacts of a layer -/
 
-theorem mem_langPkgs {S : Scanners} {l : FSLayer} {p : Pkg} :
-    p ∈ langPkgs S l ↔ ∃ q c, (q, Entry.file c) ∈ l.entries ∧ isWhiteout q = false ∧ langPkgAt S q c = some p := by
-  unfold langPkgs
-  rw [List.mem_filterMap]
+theorem filePkgsAt_mem {E : FileEco} {q c : String} {p : Pkg} (h : p ∈ filePkgsAt E q c) :
+    p.fp = q ∧ ∃ p0 ∈ E.scan q c, p.id = p0.id ∧ p.db = p0.db := by
+  unfold filePkgsAt at h
+  obtain ⟨p0, hp0, he⟩ := List.mem_map.1 h
+  subst he
+  exact ⟨rfl, p0, hp0, rfl, rfl⟩
+
+theorem mem_filePkgs {E : FileEco} {l : FSLayer} {p : Pkg} :
+    p ∈ filePkgs E l ↔ ∃ q c, (q, Entry.file c) ∈ l.entries ∧ isWhiteout q = false ∧ p ∈ filePkgsAt E q c := by
+  unfold filePkgs
+  rw [List.mem_flatMap]
   constructor
   · rintro ⟨⟨q, en⟩, hm, h⟩
     cases en with
@@ -882,12 +910,9 @@ theorem mem_langPkgs {S : Scanners} {l : FSLayer} {p : Pkg} :
   · rintro ⟨q, c, hm, hw, h⟩
     exact ⟨(q, Entry.file c), hm, by simp [hw, h]⟩
 
-theorem langPkgAt_some {S : Scanners} {q c : String} {p : Pkg} (h : langPkgAt S q c = some p) :
-    p.fp = q ∧ ∃ p0, S.scanFile q c = some p0 ∧ p.id = p0.id ∧ p.db = p0.db := by
-  unfold langPkgAt at h
-  cases hs : S.scanFile q c with
-  | none => simp [hs] at h
-  | some p0 => simp [hs] at h; subst h; exact ⟨rfl, p0, rfl, rfl, rfl⟩
+theorem mem_allFilePkgs {S : Scanners} {l : FSLayer} {p : Pkg} :
+    p ∈ allFilePkgs S l ↔ ∃ E ∈ S.fecos, p ∈ filePkgs E l := by
+  unfold allFilePkgs; rw [List.mem_flatMap]
 
 theorem entry_unique {l : FSLayer} (hnd : (l.entries.map (·.1)).Nodup) {q : String} {e1 e2 : Entry}
     (h1 : (q, e1) ∈ l.entries) (h2 : (q, e2) ∈ l.entries) : e1 = e2 := by
@@ -917,33 +942,52 @@ theorem fileOf_of_mem {l : FSLayer} (hnd : (l.entries.map (·.1)).Nodup) {q c : 
     subst this
     simp [hw]
 
-/-- in a layer that lists every path once, a language package is determined by its file -/
-theorem langPkg_unique {S : Scanners} {l : FSLayer} (hnd : (l.entries.map (·.1)).Nodup) {p p' : Pkg}
-    (h : p ∈ langPkgs S l) (h' : p' ∈ langPkgs S l) (hfp : p.fp = p'.fp) : p = p' := by
-  obtain ⟨q, c, hm, _, ha⟩ := mem_langPkgs.1 h
-  obtain ⟨q', c', hm', _, ha'⟩ := mem_langPkgs.1 h'
-  have e1 := (langPkgAt_some ha).1
-  have e2 := (langPkgAt_some ha').1
-  have hq : q = q' := by rw [← e1, ← e2]; exact hfp
-  subst hq
-  have := entry_unique hnd hm hm'
-  cases this
-  rw [ha] at ha'; exact Option.some.inj ha'
+theorem fileArts_repos_isEmpty {E : FileEco} {l : FSLayer} :
+    (fileArts E l).repos.isEmpty = (filePkgs E l).isEmpty := by
+  unfold fileArts
+  by_cases h : (filePkgs E l).isEmpty = true <;> simp [h]
 
-theorem langArts_repos_isEmpty {S : Scanners} {l : FSLayer} :
-    (langArts S l).repos.isEmpty = (langPkgs S l).isEmpty := by
-  unfold langArts
-  by_cases h : (langPkgs S l).isEmpty = true <;> simp [h]
-
-/-- a layer's language artifacts hold a package with this id iff `lastPkg` finds one -/
-theorem lastPkg_langArts_none {S : Scanners} {l : FSLayer} {id : String} :
-    ((langArts S l).repos.isEmpty = true ∨ lastPkg id (langArts S l).pkgs = none) ↔ ∀ p ∈ langPkgs S l, p.id ≠ id := by
-  rw [langArts_repos_isEmpty]
+/-- a layer's file artifacts hold a package with this id iff `lastPkg` finds one -/
+theorem lastPkg_fileArts_none {E : FileEco} {l : FSLayer} {id : String} :
+    ((fileArts E l).repos.isEmpty = true ∨ lastPkg id (fileArts E l).pkgs = none) ↔ ∀ p ∈ filePkgs E l, p.id ≠ id := by
+  rw [fileArts_repos_isEmpty]
   constructor
   · rintro (h | h)
     · intro p hp; simp at h; rw [h] at hp; simp at hp
     · exact lastPkg_none.1 h
   · intro h; exact Or.inr (lastPkg_none.2 h)
+
+/-! ### the gobin coalescer on the artifacts of a Go ecosystem is the language coalescer -/
+
+theorem gobinLayerPkgs_eq_lang (a : Layer) (rid : String) (pkgs : List Pkg) (ir : Report)
+    (h : ∀ p ∈ pkgs, hasGoPrefix p.db = true) :
+    gobinLayerPkgs a rid pkgs ir = langLayerPkgs a [rid] pkgs ir := by
+  induction pkgs generalizing ir with
+  | nil => rfl
+  | cons p rest ih =>
+    simp only [gobinLayerPkgs, langLayerPkgs, h p List.mem_cons_self, if_true]
+    exact ih _ fun q hq => h q (List.mem_cons_of_mem _ hq)
+
+theorem gobinFold_eq_langFold (arts : List Layer) (ir : Report)
+    (h : ∀ a ∈ arts, (∀ p ∈ a.pkgs, hasGoPrefix p.db = true) ∧ ((a.repos = [] ∧ a.pkgs = []) ∨ a.repos = [goRepo])) :
+    gobinFold arts ir = langFold arts ir := by
+  induction arts generalizing ir with
+  | nil => rfl
+  | cons a rest ih =>
+    obtain ⟨hgo, hrep⟩ := h a List.mem_cons_self
+    have hrest := fun b hb => h b (List.mem_cons_of_mem _ hb)
+    simp only [gobinFold, langFold]
+    rcases hrep with ⟨h1, h2⟩ | h1
+    · simp only [h1, h2, List.find?_nil, List.isEmpty_nil, if_true, gobinLayerPkgs]
+      exact ih ir hrest
+    · have hfind : a.repos.find? isGoRepo = some goRepo := by rw [h1]; rfl
+      simp only [hfind]
+      rw [h1]
+      simp only [List.isEmpty_cons, Bool.false_eq_true, if_false, List.map_cons, List.map_nil]
+      rw [gobinLayerPkgs_eq_lang a goRepo.id a.pkgs _ hgo]
+      have : setRepos [goRepo] ir.repos = aset goRepo.id goRepo ir.repos := rfl
+      rw [this]
+      exact ih _ hrest
 
 /-! ### the reports of the ecosystems -/
 
@@ -958,7 +1002,7 @@ theorem linuxRep_ok (arts : List Layer) : linuxCoalesce arts = .ok (linuxRep art
   simp [linuxRep, h]
 
 def osReps (S : Scanners) (layers : List FSLayer) : List Report :=
-  S.osDbs.map fun d => linuxRep (layers.map (osArts S d))
+  S.osDbs.map fun d => linuxRep (layers.map (osArts S false d))
 
 /-- the rhel coalescer's report (it never fails) -/
 def rhelRep (arts : List Layer) : Report :=
@@ -971,14 +1015,35 @@ theorem rhelRep_ok (arts : List Layer) : rhelCoalesce arts = .ok (rhelRep arts) 
   simp [rhelRep, h]
 
 def rhelReps (S : Scanners) (layers : List FSLayer) : List Report :=
-  S.rhelDbs.map fun d => rhelRep (layers.map (osArts S d))
+  S.rhelDbs.map fun d => rhelRep (layers.map (osArts S true d))
 
 /-- the reports of the OS package database ecosystems -/
 def dbReps (S : Scanners) (layers : List FSLayer) : List Report := osReps S layers ++ rhelReps S layers
 
-def langRep (S : Scanners) (layers : List FSLayer) : Report := langFold (layers.map (langArts S)) {}
+/-- the report of one file ecosystem: its own coalescer on its own artifacts -/
+def fileRep (E : FileEco) (layers : List FSLayer) : Report :=
+  if E.gobin then gobinFold (layers.map (fileArts E)) {} else langFold (layers.map (fileArts E)) {}
+
+def fileReps (S : Scanners) (layers : List FSLayer) : List Report := S.fecos.map fun E => fileRep E layers
 
 def whRep (layers : List FSLayer) : Report := { files := whFold (layers.map whArts) [] }
+
+/-- on a tame stack every file ecosystem's report is the language fold of its artifacts -/
+theorem fileRep_lang {S : Scanners} {layers : List FSLayer} (ht : Tame S layers) {E : FileEco} (hE : E ∈ S.fecos) :
+    fileRep E layers = langFold (layers.map (fileArts E)) {} := by
+  unfold fileRep
+  by_cases hg : E.gobin = true
+  · simp only [hg, if_true]
+    apply gobinFold_eq_langFold
+    intro a ha
+    obtain ⟨l, hl, hla⟩ := List.mem_map.1 ha
+    subst hla
+    refine ⟨fun p hp => ht.goDb E hE hg l hl p hp, ?_⟩
+    unfold fileArts
+    by_cases he : (filePkgs E l).isEmpty = true
+    · left; simp only [he, if_true, true_and]; simpa using he
+    · right; simp [he, FileEco.repo, hg]
+  · simp [hg]
 
 theorem coalesceAll_append (a b : List (Kind × List Layer)) :
     coalesceAll (a ++ b) =
@@ -995,28 +1060,39 @@ theorem coalesceAll_append (a b : List (Kind × List Layer)) :
     | ok r => cases coalesceAll rest <;> cases coalesceAll b <;> rfl
 
 theorem coalesceAll_os (S : Scanners) (layers : List FSLayer) (ds : List String) :
-    coalesceAll (ds.map fun d => (Kind.linux, layers.map (osArts S d))) =
-      some (ds.map fun d => linuxRep (layers.map (osArts S d))) := by
+    coalesceAll (ds.map fun d => (Kind.linux, layers.map (osArts S false d))) =
+      some (ds.map fun d => linuxRep (layers.map (osArts S false d))) := by
   induction ds with
   | nil => rfl
   | cons d ds ih => simp [coalesceAll, coalesceKind, linuxRep_ok, ih]
 
 theorem coalesceAll_rhel (S : Scanners) (layers : List FSLayer) (ds : List String) :
-    coalesceAll (ds.map fun d => (Kind.rhel, layers.map (osArts S d))) =
-      some (ds.map fun d => rhelRep (layers.map (osArts S d))) := by
+    coalesceAll (ds.map fun d => (Kind.rhel, layers.map (osArts S true d))) =
+      some (ds.map fun d => rhelRep (layers.map (osArts S true d))) := by
   induction ds with
   | nil => rfl
   | cons d ds ih => simp [coalesceAll, coalesceKind, rhelRep_ok, ih]
 
+theorem coalesceAll_files (layers : List FSLayer) (es : List FileEco) :
+    coalesceAll (es.map fun E => (E.kind, layers.map (fileArts E))) = some (es.map fun E => fileRep E layers) := by
+  induction es with
+  | nil => rfl
+  | cons E es ih =>
+    simp only [List.map_cons, coalesceAll, ih]
+    have : coalesceKind E.kind (layers.map (fileArts E)) = .ok (fileRep E layers) := by
+      unfold FileEco.kind fileRep
+      by_cases hg : E.gobin = true <;> simp [hg, coalesceKind, gobinCoalesce, langCoalesce]
+    rw [this]
+
 theorem coalesceAll_ecos (S : Scanners) (layers : List FSLayer) :
-    coalesceAll (ecosOf S layers) = some (dbReps S layers ++ [langRep S layers, whRep layers]) := by
+    coalesceAll (ecosOf S layers) = some ((dbReps S layers ++ fileReps S layers) ++ [whRep layers]) := by
   unfold ecosOf
-  rw [coalesceAll_append, coalesceAll_append, coalesceAll_os, coalesceAll_rhel]
-  simp [coalesceAll, coalesceKind, langCoalesce, whCoalesce, dbReps, osReps, rhelReps, langRep, whRep, whFold]
+  rw [coalesceAll_append, coalesceAll_append, coalesceAll_append, coalesceAll_os, coalesceAll_rhel, coalesceAll_files]
+  simp [coalesceAll, coalesceKind, whCoalesce, dbReps, osReps, rhelReps, fileReps, whRep, whFold]
 
 /-- the merged report, before the resolver -/
 def merged (S : Scanners) (layers : List FSLayer) : Report :=
-  mergeSR {} (dbReps S layers ++ [langRep S layers, whRep layers])
+  mergeSR {} ((dbReps S layers ++ fileReps S layers) ++ [whRep layers])
 
 theorem indexModel_eq (S : Scanners) (layers : List FSLayer) :
     indexModel S layers = resolve (layers.map (·.hash)) (merged S layers) := by
@@ -1032,6 +1108,24 @@ theorem merged_inv (S : Scanners) (layers : List FSLayer) :
 theorem merged_uniq (S : Scanners) (layers : List FSLayer) : Uniq (merged S layers) :=
   uniq_mergeSR _ {} uniq_empty
 
+theorem reps_cases {S : Scanners} {layers : List FSLayer} {rr : Report}
+    (h : rr ∈ (dbReps S layers ++ fileReps S layers) ++ [whRep layers]) :
+    rr ∈ dbReps S layers ∨ (∃ E ∈ S.fecos, rr = fileRep E layers) ∨ rr = whRep layers := by
+  rcases List.mem_append.1 h with h | h
+  · rcases List.mem_append.1 h with h | h
+    · exact Or.inl h
+    · obtain ⟨E, hE, he⟩ := List.mem_map.1 h
+      exact Or.inr (Or.inl ⟨E, hE, he.symm⟩)
+  · simp only [List.mem_cons, List.mem_nil_iff, or_false] at h; exact Or.inr (Or.inr h)
+
+theorem fileRep_mem_reps {S : Scanners} {layers : List FSLayer} {E : FileEco} (hE : E ∈ S.fecos) :
+    fileRep E layers ∈ (dbReps S layers ++ fileReps S layers) ++ [whRep layers] :=
+  List.mem_append_left _ (List.mem_append_right _ (List.mem_map.2 ⟨E, hE, rfl⟩))
+
+theorem dbRep_mem_reps {S : Scanners} {layers : List FSLayer} {r : Report} (h : r ∈ dbReps S layers) :
+    r ∈ (dbReps S layers ++ fileReps S layers) ++ [whRep layers] :=
+  List.mem_append_left _ (List.mem_append_left _ h)
+
 /-! ### OS package databases: the linux coalescer against the flattened image -/
 
 theorem mem_osPkgsOf {S : Scanners} {d c : String} {p : Pkg} (h : p ∈ osPkgsOf S d c) :
@@ -1041,15 +1135,15 @@ theorem mem_osPkgsOf {S : Scanners} {d c : String} {p : Pkg} (h : p ∈ osPkgsOf
   subst he
   exact ⟨rfl, rfl, p0, hp0, rfl⟩
 
-theorem osArts_pkgs {S : Scanners} {d : String} {l : FSLayer} {p : Pkg} (h : p ∈ (osArts S d l).pkgs) :
+theorem osArts_pkgs {S : Scanners} {rh : Bool} {d : String} {l : FSLayer} {p : Pkg} (h : p ∈ (osArts S rh d l).pkgs) :
     ∃ c, fileOf l d = some c ∧ p ∈ osPkgsOf S d c := by
   unfold osArts at h
   cases hf : fileOf l d with
   | none => simp [hf] at h
   | some c => simp only [hf] at h; exact ⟨c, rfl, h⟩
 
-theorem mentions_osArts {S : Scanners} {d : String} {l : FSLayer} (hos : ∀ c, fileOf l d = some c → S.scanDB d c ≠ []) :
-    mentions d (osArts S d l) = true ↔ ∃ c, fileOf l d = some c := by
+theorem mentions_osArts {S : Scanners} {rh : Bool} {d : String} {l : FSLayer} (hos : ∀ c, fileOf l d = some c → S.scanDB d c ≠ []) :
+    mentions d (osArts S rh d l) = true ↔ ∃ c, fileOf l d = some c := by
   unfold mentions
   rw [List.any_eq_true]
   constructor
@@ -1074,13 +1168,13 @@ theorem present_osDb {S : Scanners} {layers : List FSLayer} (ht : Tame S layers)
 
 /-- OS side, report ⇒ image -/
 theorem os_env_scan {S : Scanners} {layers : List FSLayer} (ht : Tame S layers) {d : String} (hd : d ∈ S.allDbs)
-    {id : String} {es : List Env} (hes : aget id (linuxRep (layers.map (osArts S d))).envs = some es)
+    {id : String} {es : List Env} (hes : aget id (linuxRep (layers.map (osArts S false d))).envs = some es)
     {e : Env} (he : e ∈ es) : ∃ p ∈ scanImage S layers, p.id = id ∧ p.db = e.db := by
-  obtain ⟨es', h1, e', h2, h3⟩ : ∃ es', aget id (linuxRep (layers.map (osArts S d))).envs = some es' ∧ ∃ e' ∈ es', e'.db = e.db :=
+  obtain ⟨es', h1, e', h2, h3⟩ : ∃ es', aget id (linuxRep (layers.map (osArts S false d))).envs = some es' ∧ ∃ e' ∈ es', e'.db = e.db :=
     ⟨es, hes, e, he, rfl⟩
   -- newest-db-wins for the database e.db
-  have hnw : ∃ a, lastMention e.db (layers.map (osArts S d)) = some a ∧ ∃ p ∈ a.pkgs, p.db = e.db ∧ p.id = id := by
-    have hok := linuxRep_ok (layers.map (osArts S d))
+  have hnw : ∃ a, lastMention e.db (layers.map (osArts S false d)) = some a ∧ ∃ p ∈ a.pkgs, p.db = e.db ∧ p.id = id := by
+    have hok := linuxRep_ok (layers.map (osArts S false d))
     unfold linuxCoalesce at hok
     rcases linuxFill_from _ _ _ hok id es' h1 e' h2 with ⟨es0, h0, _⟩ | ⟨db, p, hm, hid, henv⟩
     · simp at h0
@@ -1096,12 +1190,12 @@ theorem os_env_scan {S : Scanners} {layers : List FSLayer} (ht : Tame S layers) 
   have hdb : e.db = d := by rw [← hpdb]; exact (mem_osPkgsOf hpc).1
   have hpost : ∀ l' ∈ lpost, fileOf l' d = none := by
     intro l' hl'
-    have hm : mentions e.db (osArts S d l') = false := hnone _ (by rw [← hfpost]; exact List.mem_map.2 ⟨l', hl', rfl⟩)
+    have hm : mentions e.db (osArts S false d l') = false := hnone _ (by rw [← hfpost]; exact List.mem_map.2 ⟨l', hl', rfl⟩)
     cases hf : fileOf l' d with
     | none => rfl
     | some c' =>
       have hl'mem : l' ∈ layers := by rw [hl]; simp [hl']
-      have := (mentions_osArts (S := S) (d := d) (l := l') (fun c hc => (ht.osDb d hd l' hl'mem).2 c hc)).2 ⟨c', hf⟩
+      have := (mentions_osArts (S := S) (rh := false) (d := d) (l := l') (fun c hc => (ht.osDb d hd l' hl'mem).2 c hc)).2 ⟨c', hf⟩
       rw [hdb] at hm; rw [hm] at this; simp at this
   have hpres := present_osDb ht hd hl hc hpost
   refine ⟨p, ?_, hpid, hpdb⟩
@@ -1113,34 +1207,34 @@ theorem os_env_scan {S : Scanners} {layers : List FSLayer} (ht : Tame S layers) 
 /-- OS side, image ⇒ report -/
 theorem os_scan_env {S : Scanners} {layers : List FSLayer} (ht : Tame S layers) {d : String} (hd : d ∈ S.allDbs)
     {c : String} (hpres : present layers d = some c) {p : Pkg} (hp : p ∈ osPkgsOf S d c) :
-    ∃ es, aget p.id (linuxRep (layers.map (osArts S d))).envs = some es ∧ ∃ e ∈ es, e.db = d := by
+    ∃ es, aget p.id (linuxRep (layers.map (osArts S false d))).envs = some es ∧ ∃ e ∈ es, e.db = d := by
   obtain ⟨pre, l, post, hl, hc, hpost⟩ := (present_some_iff layers d c).1 hpres
   have hlmem : l ∈ layers := by rw [hl]; simp
-  have hment : mentions d (osArts S d l) = true :=
+  have hment : mentions d (osArts S false d l) = true :=
     (mentions_osArts (fun c hc => (ht.osDb d hd l hlmem).2 c hc)).2 ⟨c, hc⟩
-  have hlm : lastMention d (layers.map (osArts S d)) = some (osArts S d l) := by
+  have hlm : lastMention d (layers.map (osArts S false d)) = some (osArts S false d l) := by
     rw [hl, List.map_append, List.map_cons]
     apply lastMention_of_decomp hment
     intro b hb
     obtain ⟨l', hl', hbe⟩ := List.mem_map.1 hb
     subst hbe
-    cases hm : mentions d (osArts S d l') with
+    cases hm : mentions d (osArts S false d l') with
     | false => rfl
     | true =>
       have hl'mem : l' ∈ layers := by rw [hl]; simp [hl']
       obtain ⟨c', hc'⟩ := (mentions_osArts (fun c hc => (ht.osDb d hd l' hl'mem).2 c hc)).1 hm
       rw [(hpost l' hl').1] at hc'; simp at hc'
-  have hpa : p ∈ (osArts S d l).pkgs := by simp [osArts, hc, hp]
-  have hm : (d, p) ∈ dbEntries (linuxDbs (layers.map (osArts S d))) :=
+  have hpa : p ∈ (osArts S false d l).pkgs := by simp [osArts, hc, hp]
+  have hm : (d, p) ∈ dbEntries (linuxDbs (layers.map (osArts S false d))) :=
     mem_linux_entries.2 ⟨_, hlm, hpa, (mem_osPkgsOf hp).1⟩
-  have hok := linuxRep_ok (layers.map (osArts S d))
+  have hok := linuxRep_ok (layers.map (osArts S false d))
   unfold linuxCoalesce at hok
   exact linuxFill_has _ _ _ hok d p hm
 
 /-! ### OS package databases under the rhel coalescer -/
 
 theorem rhel_layer_decomp {S : Scanners} {layers : List FSLayer} (ht : Tame S layers) {d : String} (hd : d ∈ S.allDbs)
-    {apre apost : List Layer} {a : Layer} (hdec : layers.map (osArts S d) = apre ++ a :: apost)
+    {apre apost : List Layer} {a : Layer} (hdec : layers.map (osArts S true d) = apre ++ a :: apost)
     (ha : a.pkgs ≠ []) (hpost : ∀ b ∈ apost, b.pkgs = []) :
     ∃ c, present layers d = some c ∧ a.pkgs = osPkgsOf S d c := by
   obtain ⟨lpre, l, lpost, hl, _, hfa, hfpost⟩ := map_decomp hdec
@@ -1151,7 +1245,7 @@ theorem rhel_layer_decomp {S : Scanners} {layers : List FSLayer} (ht : Tame S la
     refine ⟨c, ?_, by simp [osArts, hc]⟩
     apply present_osDb ht hd hl hc
     intro l' hl'
-    have hempty : (osArts S d l').pkgs = [] := hpost _ (by rw [← hfpost]; exact List.mem_map.2 ⟨l', hl', rfl⟩)
+    have hempty : (osArts S true d l').pkgs = [] := hpost _ (by rw [← hfpost]; exact List.mem_map.2 ⟨l', hl', rfl⟩)
     cases hf : fileOf l' d with
     | none => rfl
     | some c' =>
@@ -1163,9 +1257,9 @@ theorem rhel_layer_decomp {S : Scanners} {layers : List FSLayer} (ht : Tame S la
 
 /-- rhel side, report ⇒ image -/
 theorem rhel_env_scan {S : Scanners} {layers : List FSLayer} (ht : Tame S layers) {d : String} (hd : d ∈ S.allDbs)
-    {id : String} {es : List Env} (hes : aget id (rhelRep (layers.map (osArts S d))).envs = some es)
+    {id : String} {es : List Env} (hes : aget id (rhelRep (layers.map (osArts S true d))).envs = some es)
     {e : Env} (he : e ∈ es) : ∃ p ∈ scanImage S layers, p.id = id ∧ p.db = e.db := by
-  obtain ⟨r', h1, hinv, _⟩ := rhelCoalesce_ok (S := False) (layers.map (osArts S d))
+  obtain ⟨r', h1, hinv, _⟩ := rhelCoalesce_ok (S := False) (layers.map (osArts S true d))
   rw [rhelRep_ok] at h1; cases h1
   obtain ⟨hpk, hall⟩ := hinv.envOk id es (mem_of_aget hes)
   -- the environment's database is d
@@ -1176,7 +1270,7 @@ theorem rhel_env_scan {S : Scanners} {layers : List FSLayer} (ht : Tame S layers
   have hedb : e.db = d := by rw [← hq'db]; exact (mem_osPkgsOf hq'c).1
   -- the id is in the last package-bearing layer
   obtain ⟨q, hq, hqid⟩ := (rhelCoalesce_ids _ _ (rhelRep_ok _) id).1 hpk
-  have hne : lastPkgs (layers.map (osArts S d)) ≠ [] := by intro h0; rw [h0] at hq; simp at hq
+  have hne : lastPkgs (layers.map (osArts S true d)) ≠ [] := by intro h0; rw [h0] at hq; simp at hq
   obtain ⟨apre, a, apost, hdec, hlast, hpost⟩ := lastPkgs_spec hne
   obtain ⟨c, hpres, hapk⟩ := rhel_layer_decomp ht hd hdec (by rw [← hlast]; exact hne) hpost
   rw [hlast, hapk] at hq
@@ -1189,22 +1283,22 @@ theorem rhel_env_scan {S : Scanners} {layers : List FSLayer} (ht : Tame S layers
 /-- rhel side, image ⇒ report -/
 theorem rhel_scan_env {S : Scanners} {layers : List FSLayer} (_ht : Tame S layers) {d : String} (_hd : d ∈ S.allDbs)
     {c : String} (hpres : present layers d = some c) {p : Pkg} (hp : p ∈ osPkgsOf S d c) :
-    ∃ es, aget p.id (rhelRep (layers.map (osArts S d))).envs = some es ∧ ∃ e ∈ es, e.db = d := by
+    ∃ es, aget p.id (rhelRep (layers.map (osArts S true d))).envs = some es ∧ ∃ e ∈ es, e.db = d := by
   obtain ⟨pre, l, post, hl, hc, hpost⟩ := (present_some_iff layers d c).1 hpres
-  have hdec : layers.map (osArts S d) = pre.map (osArts S d) ++ osArts S d l :: post.map (osArts S d) := by
+  have hdec : layers.map (osArts S true d) = pre.map (osArts S true d) ++ osArts S true d l :: post.map (osArts S true d) := by
     rw [hl]; simp
-  have hapk : (osArts S d l).pkgs = osPkgsOf S d c := by simp [osArts, hc]
-  have hne : (osArts S d l).pkgs ≠ [] := by rw [hapk]; intro h0; rw [h0] at hp; simp at hp
-  have hlater : ∀ b ∈ post.map (osArts S d), b.pkgs = [] := by
+  have hapk : (osArts S true d l).pkgs = osPkgsOf S d c := by simp [osArts, hc]
+  have hne : (osArts S true d l).pkgs ≠ [] := by rw [hapk]; intro h0; rw [h0] at hp; simp at hp
+  have hlater : ∀ b ∈ post.map (osArts S true d), b.pkgs = [] := by
     intro b hb
     obtain ⟨l', hl', hbe⟩ := List.mem_map.1 hb
     subst hbe
     simp [osArts, (hpost l' hl').1]
   have hlast := lastPkgs_decomp hdec hne hlater
-  obtain ⟨r', h1, hinv, _⟩ := rhelCoalesce_ok (S := False) (layers.map (osArts S d))
+  obtain ⟨r', h1, hinv, _⟩ := rhelCoalesce_ok (S := False) (layers.map (osArts S true d))
   rw [rhelRep_ok] at h1; cases h1
-  have hpk := (rhelCoalesce_ids _ _ (rhelRep_ok (layers.map (osArts S d))) p.id).2 ⟨p, by rw [hlast, hapk]; exact hp, rfl⟩
-  cases hg : aget p.id (rhelRep (layers.map (osArts S d))).pkgs with
+  have hpk := (rhelCoalesce_ids _ _ (rhelRep_ok (layers.map (osArts S true d))) p.id).2 ⟨p, by rw [hlast, hapk]; exact hp, rfl⟩
+  cases hg : aget p.id (rhelRep (layers.map (osArts S true d))).pkgs with
   | none => rw [hg] at hpk; simp at hpk
   | some p' =>
     obtain ⟨_, es, hes, hnee⟩ := hinv.pkgEnv p.id p' (mem_of_aget hg)
@@ -1225,11 +1319,11 @@ theorem db_env_scan {S : Scanners} {layers : List FSLayer} (ht : Tame S layers) 
   rcases List.mem_append.1 hr with hr | hr
   · obtain ⟨d, hd, hre⟩ := List.mem_map.1 hr
     subst hre
-    have hu := (linuxCoalesce_pkgs (linuxRep_ok (layers.map (osArts S d)))).2.1
+    have hu := (linuxCoalesce_pkgs (linuxRep_ok (layers.map (osArts S false d)))).2.1
     exact os_env_scan ht (List.mem_append_left _ hd) (aget_of_mem_uniq hu hm) he
   · obtain ⟨d, hd, hre⟩ := List.mem_map.1 hr
     subst hre
-    have hu := (rhelCoalesce_pkgs (rhelRep_ok (layers.map (osArts S d)))).2.1
+    have hu := (rhelCoalesce_pkgs (rhelRep_ok (layers.map (osArts S true d)))).2.1
     exact rhel_env_scan ht (List.mem_append_right _ hd) (aget_of_mem_uniq hu hm) he
 
 /-- OS side for either coalescer, image ⇒ report -/
@@ -1257,18 +1351,21 @@ theorem keysUniq_whFold (arts : List Layer) (m : List (String × File)) (h : Key
 theorem dbReps_files {S : Scanners} {layers : List FSLayer} {r : Report} (h : r ∈ dbReps S layers) : r.files = [] := by
   rcases List.mem_append.1 h with h | h
   · obtain ⟨d, _, hr⟩ := List.mem_map.1 h
-    obtain ⟨r', h1, _, _, h4⟩ := linuxCoalesce_ok (S := False) (layers.map (osArts S d))
+    obtain ⟨r', h1, _, _, h4⟩ := linuxCoalesce_ok (S := False) (layers.map (osArts S false d))
     rw [linuxRep_ok] at h1; cases h1
     rw [← hr]; exact h4
   · obtain ⟨d, _, hr⟩ := List.mem_map.1 h
-    obtain ⟨r', h1, _, h4⟩ := rhelCoalesce_ok (S := False) (layers.map (osArts S d))
+    obtain ⟨r', h1, _, h4⟩ := rhelCoalesce_ok (S := False) (layers.map (osArts S true d))
     rw [rhelRep_ok] at h1; cases h1
     rw [← hr]; exact h4
 
-theorem langRep_files (S : Scanners) (layers : List FSLayer) : (langRep S layers).files = [] := by
-  obtain ⟨r', h1, _, _, h4⟩ := langCoalesce_ok (S := False) (layers.map (langArts S))
-  simp only [langCoalesce, Except.ok.injEq] at h1
-  rw [langRep, h1]; exact h4
+theorem fileRep_files (E : FileEco) (layers : List FSLayer) : (fileRep E layers).files = [] := by
+  unfold fileRep
+  by_cases hg : E.gobin = true
+  · simp only [hg, if_true]
+    exact (gobinFold_inv (S := False) _ _ {} (fun _ h => h) (fun h => h.elim) (inv_of_nil rfl rfl)).2.2
+  · simp only [hg, Bool.false_eq_true, if_false]
+    exact (langFold_inv (S := False) _ _ {} (fun _ h => h) (inv_of_nil rfl rfl)).2.2
 
 /-- every entry of the merged `Files` map is a whiteout of the layer it is stored under -/
 theorem merged_files_from {S : Scanners} {layers : List FSLayer} {k : String} {f : File}
@@ -1276,43 +1373,40 @@ theorem merged_files_from {S : Scanners} {layers : List FSLayer} {k : String} {f
     ∃ l ∈ layers, l.hash = k ∧ f.path ∈ whiteoutsOf l ∧ f.kind = whiteoutKind := by
   rcases mergeSR_files_from _ _ k f h with h1 | ⟨r, hr, h1⟩
   · simp at h1
-  · rcases List.mem_append.1 hr with h2 | h2
+  · rcases reps_cases hr with h2 | ⟨E, _, h2⟩ | h2
     · rw [dbReps_files h2] at h1; simp at h1
-    · simp only [List.mem_cons, List.mem_nil_iff, or_false] at h2
-      rcases h2 with h2 | h2
-      · rw [h2, langRep_files] at h1; simp at h1
-      · rw [h2] at h1
-        simp only [whRep] at h1
-        rcases whFold_mem h1 with h3 | ⟨a, ha, h3, h4⟩
-        · simp at h3
-        · obtain ⟨l, hl, hla⟩ := List.mem_map.1 ha
-          subst hla
-          simp only [whArts, List.mem_map] at h4
-          obtain ⟨w, hw, hwf⟩ := h4
-          exact ⟨l, hl, h3, by rw [← hwf]; exact hw, by rw [← hwf]⟩
+    · rw [h2, fileRep_files] at h1; simp at h1
+    · rw [h2] at h1
+      simp only [whRep] at h1
+      rcases whFold_mem h1 with h3 | ⟨a, ha, h3, h4⟩
+      · simp at h3
+      · obtain ⟨l, hl, hla⟩ := List.mem_map.1 ha
+        subst hla
+        simp only [whArts, List.mem_map] at h4
+        obtain ⟨w, hw, hwf⟩ := h4
+        exact ⟨l, hl, h3, by rw [← hwf]; exact hw, by rw [← hwf]⟩
 
-/-- with one whiteout per layer and no duplicate digests, every whiteout is in the merged `Files` map -/
+/-- with one whiteout per layer, every whiteout is in the merged `Files` map (under the digest of
+    its layer — which every layer with that digest shares) -/
 theorem merged_files_has {S : Scanners} {layers : List FSLayer} (ht : Tame S layers) {l : FSLayer} (hl : l ∈ layers)
     {w : String} (hw : whiteoutsOf l = [w]) :
     (l.hash, { path := w, kind := whiteoutKind }) ∈ (merged S layers).files := by
-  obtain ⟨pre, post, hdec⟩ := List.append_of_mem hl
-  have honce := ht.hash_once hdec (Or.inl (by rw [hw]; simp))
-  have hpost : ∀ b ∈ post.map whArts, b.hash ≠ (whArts l).hash := by
+  obtain ⟨pre, l', post, hdec, hh, hent, hnot⟩ := ht.last_of_hash hl
+  have hw' : whiteoutsOf l' = [w] := by rw [whiteoutsOf_congr hent]; exact hw
+  have hpost : ∀ b ∈ post.map whArts, b.hash ≠ (whArts l').hash := by
     intro b hb
-    obtain ⟨l', hl', hbe⟩ := List.mem_map.1 hb
+    obtain ⟨l2, hl2, hbe⟩ := List.mem_map.1 hb
     subst hbe
     intro heq
-    have : l.hash ∉ post.map (·.hash) := honce.2
-    apply this
+    apply hnot
     simp only [whArts] at heq
-    rw [← heq]; exact List.mem_map.2 ⟨l', hl', rfl⟩
-  have hmem : ((whArts l).hash, ({ path := w, kind := whiteoutKind } : File)) ∈ (whRep layers).files := by
+    rw [← hh, ← heq]; exact List.mem_map.2 ⟨l2, hl2, rfl⟩
+  have hmem : ((whArts l').hash, ({ path := w, kind := whiteoutKind } : File)) ∈ (whRep layers).files := by
     simp only [whRep]
     rw [hdec, List.map_append, List.map_cons]
-    exact whFold_single [] (by simp [whArts, hw]) hpost
-  have : merged S layers = mergeSR {} ((dbReps S layers ++ [langRep S layers]) ++ [whRep layers]) := by
-    simp [merged]
-  rw [this]
+    exact whFold_single [] (by simp [whArts, hw']) hpost
+  have hk : (whArts l').hash = l.hash := hh
+  rw [hk] at hmem
   exact mergeSR_files_last _ _ _ _ _ (keysUniq_whFold _ _ (by simp [KeysUniq])) hmem
 
 /-! ### deletion by the resolver = hidden by a later layer -/
@@ -1338,42 +1432,51 @@ theorem pkgDeleted_nofp {S : Scanners} {layers : List FSLayer} (ht : Tame S laye
   have := (ht.delSpec l hl f.path hw).1
   simp [hfp, this]
 
-/-- for a language package whose newest environment is layer `l`: the resolver deletes it exactly
-    when a later layer hides its file -/
+/-- a position after `pre.length` of `pre ++ l :: post` lies in `post` -/
+theorem mem_post_of_longer {α : Type} {pre post q1 q2 : List α} {l l2 : α}
+    (h : pre ++ l :: post = q1 ++ l2 :: q2) (hlen : q1.length > pre.length) : l2 ∈ post := by
+  induction pre generalizing q1 with
+  | nil =>
+    cases q1 with
+    | nil => simp at hlen
+    | cons x q1' => simp at h; rw [h.2]; simp
+  | cons y pre ih =>
+    cases q1 with
+    | nil => simp at hlen
+    | cons x q1' =>
+      simp at h
+      exact ih h.2 (by simpa using hlen)
+
+/-- for a package whose newest environment is layer `l` (the last position of its digest): the
+    resolver deletes it exactly when a later layer hides its file -/
 theorem pkgDeleted_iff_hidden {S : Scanners} {layers : List FSLayer} (ht : Tame S layers)
-    {pre post : List FSLayer} {l : FSLayer} (hdec : layers = pre ++ l :: post) {pl : Pkg} (hpl : pl ∈ langPkgs S l)
-    {l0 : FSLayer} (hl0 : l0 ∈ layers) {p : Pkg} (hp : p ∈ langPkgs S l0) :
+    {pre post : List FSLayer} {l : FSLayer} (hdec : layers = pre ++ l :: post)
+    (hlast : l.hash ∉ post.map (·.hash))
+    {l0 : FSLayer} (hl0 : l0 ∈ layers) {p : Pkg} (hp : p ∈ allFilePkgs S l0) :
     pkgDeleted (layers.map (·.hash)) (merged S layers).files p l.hash = true ↔ ∃ l' ∈ post, hides l' p.fp = true := by
-  have hlonce := ht.hash_once hdec (Or.inr (by intro e; rw [e] at hpl; simp at hpl))
   have hmap : layers.map (·.hash) = pre.map (·.hash) ++ l.hash :: post.map (·.hash) := by rw [hdec]; simp
+  have hidx : sorterIdx (layers.map (·.hash)) l.hash = pre.length := by
+    rw [hmap, sorterIdx_split _ _ _ hlast]; simp
   unfold pkgDeleted
   rw [List.any_eq_true]
   constructor
   · rintro ⟨⟨k, f⟩, hkf, hcond⟩
     simp only [Bool.and_eq_true, decide_eq_true_eq] at hcond
     obtain ⟨⟨_, hlater⟩, hdel⟩ := hcond
-    obtain ⟨l', hl', hk, hw, _⟩ := merged_files_from hkf
-    have hcov : covers f.path p.fp = true := by rw [← (ht.delSpec l' hl' f.path hw).2 l0 hl0 p hp]; exact hdel
-    have hpost : l' ∈ post := by
-      rw [hdec] at hl'
-      rcases List.mem_append.1 hl' with h | h
-      · exfalso
-        obtain ⟨q1, q2, hq⟩ := List.append_of_mem h
-        have hdec' : layers = q1 ++ l' :: (q2 ++ l :: post) := by rw [hdec, hq]; simp
-        have hl'once := ht.hash_once hdec' (Or.inl (by intro e; rw [e] at hw; simp at hw))
-        have hnotpost : l'.hash ∉ post.map (·.hash) := by
-          intro hm; apply hl'once.2; simp only [List.map_append, List.map_cons, List.mem_append, List.mem_cons]
-          exact Or.inr (Or.inr hm)
-        rw [hmap, ← hk] at hlater
-        exact not_later_of_mem_pre hlonce.2 hnotpost (Or.inl (List.mem_map.2 ⟨l', h, rfl⟩)) hlater
-      · rcases List.mem_cons.1 h with h | h
-        · exfalso
-          rw [hmap, ← hk, h] at hlater
-          exact not_later_of_mem_pre hlonce.2 hlonce.2 (Or.inr rfl) hlater
-        · exact h
-    refine ⟨l', hpost, ?_⟩
-    rw [ht.hidesSpec l' hl' l0 hl0 p hp, List.any_eq_true]
-    exact ⟨f.path, by rw [← (ht.oneWhiteout l' hl').2]; exact hw, hcov⟩
+    obtain ⟨l1, hl1, hk, hw, _⟩ := merged_files_from hkf
+    have hcov : covers f.path p.fp = true := by rw [← (ht.delSpec l1 hl1 f.path hw).2 p.fp]; exact hdel
+    -- the last layer with digest k: it has the same whiteout, and lies after l
+    obtain ⟨q1, l2, q2, hdec2, hh2, hent2, hnot2⟩ := ht.last_of_hash hl1
+    have hidx2 : sorterIdx (layers.map (·.hash)) k = q1.length := by
+      have : layers.map (·.hash) = q1.map (·.hash) ++ k :: q2.map (·.hash) := by rw [hdec2]; simp [hh2, hk]
+      rw [this, sorterIdx_split _ _ _ (by rw [← hk]; exact hnot2)]; simp
+    rw [hidx, hidx2] at hlater
+    have hpost : l2 ∈ post := mem_post_of_longer (hdec.symm.trans hdec2) hlater
+    have hl2mem : l2 ∈ layers := by rw [hdec2]; simp
+    refine ⟨l2, hpost, ?_⟩
+    rw [ht.hidesSpec l2 hl2mem l0 hl0 p hp, List.any_eq_true]
+    refine ⟨f.path, ?_, hcov⟩
+    rw [← (ht.oneWhiteout l2 hl2mem).2, whiteoutsOf_congr hent2]; exact hw
   · rintro ⟨l', hl', hh⟩
     have hl'mem : l' ∈ layers := by rw [hdec]; simp [hl']
     rw [ht.hidesSpec l' hl'mem l0 hl0 p hp, List.any_eq_true] at hh
@@ -1392,17 +1495,17 @@ theorem pkgDeleted_iff_hidden {S : Scanners} {layers : List FSLayer} (ht : Tame 
     simp only [Bool.and_eq_true, decide_eq_true_eq]
     refine ⟨⟨by simp, ?_⟩, ?_⟩
     · rw [hmap]
-      exact later_of_mem_post hlonce.2 (List.mem_map.2 ⟨l', hl', rfl⟩)
-    · rw [(ht.delSpec l' hl'mem w (by rw [hone]; simp)).2 l0 hl0 p hp]; exact hcov
+      exact later_of_mem_post hlast (List.mem_map.2 ⟨l', hl', rfl⟩)
+    · rw [(ht.delSpec l' hl'mem w (by rw [hone]; simp)).2 p.fp]; exact hcov
 
 /-! ### which report an id comes from -/
 
 theorem os_pkg_origin {S : Scanners} {layers : List FSLayer} {r : Report} (hr : r ∈ dbReps S layers)
     {id : String} {p : Pkg} (hm : (id, p) ∈ r.pkgs) :
     p.fp = "" ∧ ∃ d ∈ S.allDbs, ∃ l ∈ layers, ∃ c, fileOf l d = some c ∧ ∃ p0 ∈ S.scanDB d c, p0.id = id := by
-  have key : ∀ d, p.id = id → p ∈ allPkgs (layers.map (osArts S d)) → d ∈ S.allDbs →
+  have key : ∀ rh d, p.id = id → p ∈ allPkgs (layers.map (osArts S rh d)) → d ∈ S.allDbs →
       p.fp = "" ∧ ∃ d ∈ S.allDbs, ∃ l ∈ layers, ∃ c, fileOf l d = some c ∧ ∃ p0 ∈ S.scanDB d c, p0.id = id := by
-    intro d hid hall hd
+    intro rh d hid hall hd
     obtain ⟨a, ha, hpa⟩ := List.mem_flatMap.1 hall
     obtain ⟨l, hl, hla⟩ := List.mem_map.1 ha
     subst hla
@@ -1412,16 +1515,16 @@ theorem os_pkg_origin {S : Scanners} {layers : List FSLayer} {r : Report} (hr : 
   rcases List.mem_append.1 hr with hr | hr
   · obtain ⟨d, hd, hre⟩ := List.mem_map.1 hr
     subst hre
-    obtain ⟨r', h1, hinv, _, _⟩ := linuxCoalesce_ok (S := False) (layers.map (osArts S d))
+    obtain ⟨r', h1, hinv, _, _⟩ := linuxCoalesce_ok (S := False) (layers.map (osArts S false d))
     rw [linuxRep_ok] at h1; cases h1
-    exact key d (hinv.pkgEnv id p hm).1
-      ((linuxCoalesce_pkgs (linuxRep_ok (layers.map (osArts S d)))).2.2 id p hm) (List.mem_append_left _ hd)
+    exact key false d (hinv.pkgEnv id p hm).1
+      ((linuxCoalesce_pkgs (linuxRep_ok (layers.map (osArts S false d)))).2.2 id p hm) (List.mem_append_left _ hd)
   · obtain ⟨d, hd, hre⟩ := List.mem_map.1 hr
     subst hre
-    obtain ⟨r', h1, hinv, _⟩ := rhelCoalesce_ok (S := False) (layers.map (osArts S d))
+    obtain ⟨r', h1, hinv, _⟩ := rhelCoalesce_ok (S := False) (layers.map (osArts S true d))
     rw [rhelRep_ok] at h1; cases h1
-    exact key d (hinv.pkgEnv id p hm).1
-      ((rhelCoalesce_pkgs (rhelRep_ok (layers.map (osArts S d)))).2.2 id p hm) (List.mem_append_right _ hd)
+    exact key true d (hinv.pkgEnv id p hm).1
+      ((rhelCoalesce_pkgs (rhelRep_ok (layers.map (osArts S true d)))).2.2 id p hm) (List.mem_append_right _ hd)
 
 theorem os_env_has_pkg {S : Scanners} {layers : List FSLayer} {r : Report} (hr : r ∈ dbReps S layers)
     {id : String} {es : List Env} (hm : (id, es) ∈ r.envs) : ∃ p, (id, p) ∈ r.pkgs := by
@@ -1434,114 +1537,166 @@ theorem os_env_has_pkg {S : Scanners} {layers : List FSLayer} {r : Report} (hr :
   rcases List.mem_append.1 hr with hr | hr
   · obtain ⟨d, _, hre⟩ := List.mem_map.1 hr
     subst hre
-    obtain ⟨r', h1, hinv, _, _⟩ := linuxCoalesce_ok (S := False) (layers.map (osArts S d))
+    obtain ⟨r', h1, hinv, _, _⟩ := linuxCoalesce_ok (S := False) (layers.map (osArts S false d))
     rw [linuxRep_ok] at h1; cases h1
     exact key hinv
   · obtain ⟨d, _, hre⟩ := List.mem_map.1 hr
     subst hre
-    obtain ⟨r', h1, hinv, _⟩ := rhelCoalesce_ok (S := False) (layers.map (osArts S d))
+    obtain ⟨r', h1, hinv, _⟩ := rhelCoalesce_ok (S := False) (layers.map (osArts S true d))
     rw [rhelRep_ok] at h1; cases h1
     exact key hinv
 
-/-- a language package id never occurs in an OS report -/
-theorem lang_id_not_os {S : Scanners} {layers : List FSLayer} (ht : Tame S layers)
-    {l0 : FSLayer} (hl0 : l0 ∈ layers) {p0 : Pkg} (hp0 : p0 ∈ langPkgs S l0)
+/-- a file package id never occurs in an OS report -/
+theorem file_id_not_os {S : Scanners} {layers : List FSLayer} (ht : Tame S layers)
+    {l0 : FSLayer} (hl0 : l0 ∈ layers) {p0 : Pkg} (hp0 : p0 ∈ allFilePkgs S l0)
     {r : Report} (hr : r ∈ dbReps S layers) {p : Pkg} (hm : (p0.id, p) ∈ r.pkgs) : False := by
   obtain ⟨_, d, hd, l, hl, c, hc, q, hq, hqid⟩ := os_pkg_origin hr hm
   exact ht.disjoint d hd l hl c hc q hq l0 hl0 p0 hp0 hqid
 
-theorem lastLang_layers {S : Scanners} {layers : List FSLayer} {id : String} {a : Layer} {pL : Pkg}
-    (h : lastLang id (layers.map (langArts S)) = some (a, pL)) :
-    ∃ lpre l lpost, layers = lpre ++ l :: lpost ∧ a = langArts S l ∧ pL ∈ langPkgs S l ∧ pL.id = id ∧
-      ∀ l' ∈ lpost, ∀ p ∈ langPkgs S l', p.id ≠ id := by
+theorem lastLang_layers {E : FileEco} {layers : List FSLayer} {id : String} {a : Layer} {pL : Pkg}
+    (h : lastLang id (layers.map (fileArts E)) = some (a, pL)) :
+    ∃ lpre l lpost, layers = lpre ++ l :: lpost ∧ a = fileArts E l ∧ pL ∈ filePkgs E l ∧ pL.id = id ∧
+      ∀ l' ∈ lpost, ∀ p ∈ filePkgs E l', p.id ≠ id := by
   obtain ⟨apre, apost, h1, _, h3, h4⟩ := lastLang_some h
   obtain ⟨lpre, l, lpost, hl, _, hfa, hfpost⟩ := map_decomp h1
   refine ⟨lpre, l, lpost, hl, hfa.symm, ?_, ?_, ?_⟩
   · have := (lastPkg_some h3).1; rw [← hfa] at this; exact this
   · exact (lastPkg_some h3).2
   · intro l' hl'
-    have := lastLang_none.1 h4 (langArts S l') (by rw [← hfpost]; exact List.mem_map.2 ⟨l', hl', rfl⟩)
-    exact lastPkg_langArts_none.1 this
+    have := lastLang_none.1 h4 (fileArts E l') (by rw [← hfpost]; exact List.mem_map.2 ⟨l', hl', rfl⟩)
+    exact lastPkg_fileArts_none.1 this
 
-theorem lastLang_exists {S : Scanners} {layers : List FSLayer} {l : FSLayer} (hl : l ∈ layers) {p : Pkg}
-    (hp : p ∈ langPkgs S l) : ∃ a pL, lastLang p.id (layers.map (langArts S)) = some (a, pL) := by
-  cases h : lastLang p.id (layers.map (langArts S)) with
+theorem lastLang_exists {E : FileEco} {layers : List FSLayer} {l : FSLayer} (hl : l ∈ layers) {p : Pkg}
+    (hp : p ∈ filePkgs E l) : ∃ a pL, lastLang p.id (layers.map (fileArts E)) = some (a, pL) := by
+  cases h : lastLang p.id (layers.map (fileArts E)) with
   | some x => exact ⟨x.1, x.2, rfl⟩
   | none =>
-    have := lastLang_none.1 h (langArts S l) (List.mem_map.2 ⟨l, hl, rfl⟩)
-    exact absurd rfl (lastPkg_langArts_none.1 this p hp)
+    have := lastLang_none.1 h (fileArts E l) (List.mem_map.2 ⟨l, hl, rfl⟩)
+    exact absurd rfl (lastPkg_fileArts_none.1 this p hp)
 
-theorem langRep_get (S : Scanners) (layers : List FSLayer) (id : String) :
-    aget id (langRep S layers).envs =
-      (match lastLang id (layers.map (langArts S)) with
+theorem fileRep_get {S : Scanners} {layers : List FSLayer} (ht : Tame S layers) {E : FileEco} (hE : E ∈ S.fecos)
+    (id : String) :
+    aget id (fileRep E layers).envs =
+      (match lastLang id (layers.map (fileArts E)) with
        | some (a, p) => some [langEnv a p]
        | none => none) ∧
-    aget id (langRep S layers).pkgs =
-      (match lastLang id (layers.map (langArts S)) with
+    aget id (fileRep E layers).pkgs =
+      (match lastLang id (layers.map (fileArts E)) with
        | some (_, p) => some p
        | none => none) := by
-  obtain ⟨h1, h2⟩ := langFold_get (layers.map (langArts S)) {} id
-  unfold langRep
-  rw [h1, h2]
-  cases lastLang id (layers.map (langArts S)) <;> simp
+  obtain ⟨h1, h2⟩ := langFold_get (layers.map (fileArts E)) {} id
+  rw [fileRep_lang ht hE, h1, h2]
+  cases lastLang id (layers.map (fileArts E)) <;> simp
 
-theorem langRep_uniq (S : Scanners) (layers : List FSLayer) :
-    KeysUniq (langRep S layers).envs ∧ KeysUniq (langRep S layers).pkgs :=
-  keysUniq_langFold _ {} (by simp [KeysUniq]) (by simp [KeysUniq])
+theorem fileRep_uniq {S : Scanners} {layers : List FSLayer} (ht : Tame S layers) {E : FileEco} (hE : E ∈ S.fecos) :
+    KeysUniq (fileRep E layers).envs ∧ KeysUniq (fileRep E layers).pkgs := by
+  rw [fileRep_lang ht hE]
+  exact keysUniq_langFold _ {} (by simp [KeysUniq]) (by simp [KeysUniq])
 
 theorem whRep_empty (layers : List FSLayer) : (whRep layers).envs = [] ∧ (whRep layers).pkgs = [] := ⟨rfl, rfl⟩
 
-/-- the merged report's view of a language package id: one kind of environment, the last layer's package -/
-theorem merged_lang_id {S : Scanners} {layers : List FSLayer} (ht : Tame S layers) {id : String} {a : Layer} {pL : Pkg}
-    (hlast : lastLang id (layers.map (langArts S)) = some (a, pL)) :
+/-- an id in a file ecosystem's report is the id of a package its scanner found in some layer -/
+theorem fileRep_id_origin {S : Scanners} {layers : List FSLayer} (ht : Tame S layers) {E : FileEco} (hE : E ∈ S.fecos)
+    {id : String} (h : (aget id (fileRep E layers).envs).isSome ∨ (aget id (fileRep E layers).pkgs).isSome) :
+    ∃ l ∈ layers, ∃ p ∈ filePkgs E l, p.id = id := by
+  obtain ⟨g1, g2⟩ := fileRep_get ht hE id
+  cases hlast : lastLang id (layers.map (fileArts E)) with
+  | none => rw [hlast] at g1 g2; simp only at g1 g2; rw [g1, g2] at h; simp at h
+  | some apl =>
+    obtain ⟨a, pL⟩ := apl
+    obtain ⟨lpre, l, lpost, hl, _, hpL, hpid, _⟩ := lastLang_layers hlast
+    exact ⟨l, by rw [hl]; simp, pL, hpL, hpid⟩
+
+theorem pairwise_mem {α : Type} {R : α → α → Prop} {l : List α} (h : l.Pairwise R) {a b : α} (ha : a ∈ l) (hb : b ∈ l) :
+    a = b ∨ R a b ∨ R b a := by
+  induction l with
+  | nil => simp at ha
+  | cons x xs ih =>
+    obtain ⟨h1, h2⟩ := List.pairwise_cons.1 h
+    rcases List.mem_cons.1 ha with ha1 | ha2 <;> rcases List.mem_cons.1 hb with hb1 | hb2
+    · exact Or.inl (ha1.trans hb1.symm)
+    · rw [ha1]; exact Or.inr (Or.inl (h1 b hb2))
+    · rw [hb1]; exact Or.inr (Or.inr (h1 a ha2))
+    · exact ih h2 ha2 hb2
+
+/-- two file ecosystems that both know an id are the same ecosystem -/
+theorem eco_of_id {S : Scanners} {layers : List FSLayer} (ht : Tame S layers) {E E' : FileEco}
+    (hE : E ∈ S.fecos) (hE' : E' ∈ S.fecos) {id : String}
+    {l : FSLayer} (hl : l ∈ layers) {p : Pkg} (hp : p ∈ filePkgs E l) (hpid : p.id = id)
+    {l' : FSLayer} (hl' : l' ∈ layers) {p' : Pkg} (hp' : p' ∈ filePkgs E' l') (hpid' : p'.id = id) : E = E' := by
+  rcases pairwise_mem ht.ecosApart hE hE' with h | h | h
+  · exact h
+  · exact absurd (hpid.trans hpid'.symm) (h l hl p hp l' hl' p' hp')
+  · exact absurd (hpid'.trans hpid.symm) (h l' hl' p' hp' l hl p hp)
+
+/-- the merged report's view of a file package id: one kind of environment, the last layer's package -/
+theorem merged_file_id {S : Scanners} {layers : List FSLayer} (ht : Tame S layers) {E : FileEco} (hE : E ∈ S.fecos)
+    {id : String} {a : Layer} {pL : Pkg}
+    (hlast : lastLang id (layers.map (fileArts E)) = some (a, pL)) :
     (∃ ws, aget id (merged S layers).envs = some ws ∧ langEnv a pL ∈ ws ∧ ∀ e ∈ ws, e = langEnv a pL) ∧
     aget id (merged S layers).pkgs = some pL := by
   obtain ⟨lpre, l, lpost, hl, _, hpL, hpid, _⟩ := lastLang_layers hlast
   have hlmem : l ∈ layers := by rw [hl]; simp
-  obtain ⟨g1, g2⟩ := langRep_get S layers id
+  have hpLall : pL ∈ allFilePkgs S l := mem_allFilePkgs.2 ⟨E, hE, hpL⟩
+  obtain ⟨g1, g2⟩ := fileRep_get ht hE id
   rw [hlast] at g1 g2
   simp only at g1 g2
-  have hin : langRep S layers ∈ dbReps S layers ++ [langRep S layers, whRep layers] := by simp
+  have hin := fileRep_mem_reps (layers := layers) hE
   constructor
-  · have hex := (mergeSR_envs (dbReps S layers ++ [langRep S layers, whRep layers]) {} (by simp [KeysUniq]) id (langEnv a pL)).2
-      (Or.inr ⟨langRep S layers, hin, [langEnv a pL], mem_of_aget g1, by simp⟩)
+  · have hex := (mergeSR_envs ((dbReps S layers ++ fileReps S layers) ++ [whRep layers]) {} (by simp [KeysUniq]) id (langEnv a pL)).2
+      (Or.inr ⟨fileRep E layers, hin, [langEnv a pL], mem_of_aget g1, by simp⟩)
     obtain ⟨ws, hws, hmem⟩ := hex
     refine ⟨ws, hws, hmem, ?_⟩
     intro e he
-    rcases (mergeSR_envs (dbReps S layers ++ [langRep S layers, whRep layers]) {} (by simp [KeysUniq]) id e).1 ⟨ws, hws, he⟩ with
+    rcases (mergeSR_envs ((dbReps S layers ++ fileReps S layers) ++ [whRep layers]) {} (by simp [KeysUniq]) id e).1 ⟨ws, hws, he⟩ with
       ⟨es, h0, _⟩ | ⟨r, hr, es, h1, h2⟩
     · simp at h0
-    · rcases List.mem_append.1 hr with h3 | h3
+    · rcases reps_cases hr with h3 | ⟨E', hE', h3⟩ | h3
       · exfalso
         obtain ⟨p, hp⟩ := os_env_has_pkg h3 h1
         rw [← hpid] at hp
-        exact lang_id_not_os ht hlmem hpL h3 hp
-      · simp only [List.mem_cons, List.mem_nil_iff, or_false] at h3
-        rcases h3 with h3 | h3
-        · subst h3
-          have := aget_of_mem_uniq (langRep_uniq S layers).1 h1
-          rw [g1] at this
-          cases this
-          simpa using h2
-        · subst h3; simp [whRep] at h1
-  · have hsome := mergeSR_pkgs_has (dbReps S layers ++ [langRep S layers, whRep layers]) {} id
-      (Or.inr ⟨langRep S layers, hin, pL, mem_of_aget g2⟩)
+        exact file_id_not_os ht hlmem hpLall h3 hp
+      · subst h3
+        have hsome : (aget id (fileRep E' layers).envs).isSome := aget_isSome_of_mem h1
+        obtain ⟨l', hl', p', hp', hpid'⟩ := fileRep_id_origin ht hE' (Or.inl hsome)
+        have : E = E' := eco_of_id ht hE hE' hlmem hpL hpid hl' hp' hpid'
+        subst this
+        have := aget_of_mem_uniq (fileRep_uniq ht hE).1 h1
+        rw [g1] at this
+        cases this
+        simpa using h2
+      · subst h3; simp [whRep] at h1
+  · have hsome := mergeSR_pkgs_has ((dbReps S layers ++ fileReps S layers) ++ [whRep layers]) {} id
+      (Or.inr ⟨fileRep E layers, hin, pL, mem_of_aget g2⟩)
     cases hg : aget id (merged S layers).pkgs with
     | none => rw [merged] at hg; rw [hg] at hsome; simp at hsome
     | some p =>
       rcases mergeSR_pkgs_from _ _ id p (mem_of_aget hg) with h0 | ⟨r, hr, h1⟩
       · simp at h0
-      · rcases List.mem_append.1 hr with h3 | h3
+      · rcases reps_cases hr with h3 | ⟨E', hE', h3⟩ | h3
         · exfalso
           rw [← hpid] at h1
-          exact lang_id_not_os ht hlmem hpL h3 h1
-        · simp only [List.mem_cons, List.mem_nil_iff, or_false] at h3
-          rcases h3 with h3 | h3
-          · subst h3
-            have := aget_of_mem_uniq (langRep_uniq S layers).2 h1
-            rw [g2] at this
-            exact congrArg some (Option.some.inj this).symm
-          · subst h3; simp [whRep] at h1
+          exact file_id_not_os ht hlmem hpLall h3 h1
+        · subst h3
+          have hsome : (aget id (fileRep E' layers).pkgs).isSome := aget_isSome_of_mem h1
+          obtain ⟨l', hl', p', hp', hpid'⟩ := fileRep_id_origin ht hE' (Or.inr hsome)
+          have : E = E' := eco_of_id ht hE hE' hlmem hpL hpid hl' hp' hpid'
+          subst this
+          have := aget_of_mem_uniq (fileRep_uniq ht hE).2 h1
+          rw [g2] at this
+          exact congrArg some (Option.some.inj this).symm
+        · subst h3; simp [whRep] at h1
+
+/-- the layer `lastLang` names is the last position of its digest -/
+theorem lastLang_hash_last {S : Scanners} {layers : List FSLayer} (ht : Tame S layers) {E : FileEco}
+    {lpre lpost : List FSLayer} {l : FSLayer} (hl : layers = lpre ++ l :: lpost) {pL : Pkg} (hpL : pL ∈ filePkgs E l)
+    (hlater : ∀ l' ∈ lpost, ∀ p ∈ filePkgs E l', p.id ≠ pL.id) : l.hash ∉ lpost.map (·.hash) := by
+  intro hm
+  obtain ⟨l', hl', hh⟩ := List.mem_map.1 hm
+  have hl'mem : l' ∈ layers := by rw [hl]; simp [hl']
+  have hent := ht.digests l' hl'mem l (by rw [hl]; simp) hh
+  have : pL ∈ filePkgs E l' := by rw [filePkgs_congr E hent]; exact hpL
+  exact hlater l' hl' pL this rfl
 
 /-! ### the composition theorem -/
 
@@ -1568,26 +1723,20 @@ theorem index_eq_flatten {S : Scanners} {layers : List FSLayer} (ht : Tame S lay
   refine ⟨r, by rw [indexModel_eq]; exact hr, ?_⟩
   intro id db
   have hex := resolve_exact (layers.map (·.hash)) (merged S layers) r (merged_inv S layers) (merged_uniq S layers).pkgs hr id
-  have hlist : ∀ rr, rr ∈ dbReps S layers ++ [langRep S layers, whRep layers] →
-      rr ∈ dbReps S layers ∨ rr = langRep S layers ∨ rr = whRep layers := by
-    intro rr hrr
-    rcases List.mem_append.1 hrr with h | h
-    · exact Or.inl h
-    · simp only [List.mem_cons, List.mem_nil_iff, or_false] at h; exact Or.inr h
   constructor
   · -- report ⇒ image
     rintro ⟨es, hes, e, he, hdb⟩
     obtain ⟨hMenvs, p, hMp, hnd⟩ := hex.1 es hes
     rcases (mergeSR_envs _ {} (by simp [KeysUniq]) id e).1 ⟨es, hMenvs, he⟩ with ⟨es0, h0, _⟩ | ⟨rr, hrr, es', h1, h2⟩
     · simp at h0
-    · rcases hlist rr hrr with hos | hlang | hwh
+    · rcases reps_cases hrr with hos | ⟨E, hE, hlang⟩ | hwh
       · obtain ⟨q, hq, hqid, hqdb⟩ := db_env_scan ht hos h1 h2
         exact ⟨q, hq, hqid, by rw [hqdb, hdb]⟩
       · subst hlang
-        have hg := aget_of_mem_uniq (langRep_uniq S layers).1 h1
-        obtain ⟨g1, _⟩ := langRep_get S layers id
+        have hg := aget_of_mem_uniq (fileRep_uniq ht hE).1 h1
+        obtain ⟨g1, _⟩ := fileRep_get ht hE id
         rw [hg] at g1
-        cases hlast : lastLang id (layers.map (langArts S)) with
+        cases hlast : lastLang id (layers.map (fileArts E)) with
         | none => rw [hlast] at g1; simp at g1
         | some apl =>
           obtain ⟨a, pL⟩ := apl
@@ -1597,7 +1746,10 @@ theorem index_eq_flatten {S : Scanners} {layers : List FSLayer} (ht : Tame S lay
           simp only [List.mem_singleton] at h2
           obtain ⟨lpre, l, lpost, hl, ha, hpL, hpid, hlater⟩ := lastLang_layers hlast
           have hlmem : l ∈ layers := by rw [hl]; simp
-          obtain ⟨⟨ws, hws, _, hall⟩, hMpL⟩ := merged_lang_id ht hlast
+          have hpLall : pL ∈ allFilePkgs S l := mem_allFilePkgs.2 ⟨E, hE, hpL⟩
+          have hhash : l.hash ∉ lpost.map (·.hash) :=
+            lastLang_hash_last ht hl hpL (fun l' hl' q hq => by rw [hpid]; exact hlater l' hl' q hq)
+          obtain ⟨⟨ws, hws, _, hall⟩, hMpL⟩ := merged_file_id ht hE hlast
           rw [hMenvs] at hws; cases hws
           rw [hMpL] at hMp; cases hMp
           -- not deleted: no later layer hides the file
@@ -1608,14 +1760,14 @@ theorem index_eq_flatten {S : Scanners} {layers : List FSLayer} (ht : Tame S lay
             cases hh : hides l' p.fp with
             | false => rfl
             | true =>
-              have := (pkgDeleted_iff_hidden ht hl hpL hlmem hpL).2 ⟨l', hl', hh⟩
+              have := (pkgDeleted_iff_hidden ht hl hhash hlmem hpLall).2 ⟨l', hl', hh⟩
               cases es with
               | nil => simp at he
               | cons e0 es0 =>
                 have hdel := delOf_lang (p := p) hMenvs hintro
                 rw [hnd, this] at hdel; simp at hdel
-          obtain ⟨q, c, hmem, hwq, hat⟩ := mem_langPkgs.1 hpL
-          obtain ⟨hfp, p00, hscan, hid00, _⟩ := langPkgAt_some hat
+          obtain ⟨q, c, hmem, hwq, hat⟩ := mem_filePkgs.1 hpL
+          obtain ⟨hfp, p00, hscan, hid00, _⟩ := filePkgsAt_mem hat
           have hfile : fileOf l q = some c := fileOf_of_mem (ht.paths l hlmem) hmem hwq
           have hpres : present layers q = some c := by
             rw [present_some_iff]
@@ -1624,14 +1776,13 @@ theorem index_eq_flatten {S : Scanners} {layers : List FSLayer} (ht : Tame S lay
             | none => rfl
             | some c' =>
               exfalso
-              have hpw := ht.noOverwrite
+              have hpw := ht.noOverwrite E hE
               rw [hl, List.pairwise_append] at hpw
               rcases (List.pairwise_cons.1 hpw.2.1).1 l' hl' (q, Entry.file c) hmem c hfile p00 hscan c' hf' with
-                ⟨p', hs0, hid'⟩ | hhid
-              · have hs' : S.scanFile q c' = some p' := hs0
-                obtain ⟨hm', hw'⟩ := fileOf_some hf'
-                have : ({ p' with fp := q } : Pkg) ∈ langPkgs S l' :=
-                  mem_langPkgs.2 ⟨q, c', hm', hw', by simp [langPkgAt, hs']⟩
+                ⟨p', hs', hid'⟩ | hhid
+              · obtain ⟨hm', hw'⟩ := fileOf_some hf'
+                have : ({ p' with fp := q } : Pkg) ∈ filePkgs E l' :=
+                  mem_filePkgs.2 ⟨q, c', hm', hw', List.mem_map.2 ⟨p', hs', rfl⟩⟩
                 apply hlater l' hl' _ this
                 simp only
                 rw [hid', ← hid00, hpid]
@@ -1642,7 +1793,9 @@ theorem index_eq_flatten {S : Scanners} {layers : List FSLayer} (ht : Tame S lay
           refine ⟨p, ?_, hpid, ?_⟩
           · unfold scanImage
             apply List.mem_append_right
-            rw [List.mem_filterMap]
+            rw [List.mem_flatMap]
+            refine ⟨E, hE, ?_⟩
+            rw [List.mem_flatMap]
             exact ⟨(q, c), (mem_flatten_iff layers q c).2 hpres, hat⟩
           · rw [← hdb, h2]; rfl
       · subst hwh; simp [whRep] at h1
@@ -1657,7 +1810,7 @@ theorem index_eq_flatten {S : Scanners} {layers : List FSLayer} (ht : Tame S lay
         simp only [hpres] at hpd
         obtain ⟨rdb, hrdb, es, hes, e, he, hedb⟩ := db_scan_env ht hd hpres hpd
         obtain ⟨hpdb, _, p00, hp00, hid00⟩ := mem_osPkgsOf hpd
-        have hin : rdb ∈ dbReps S layers ++ [langRep S layers, whRep layers] := List.mem_append_left _ hrdb
+        have hin := dbRep_mem_reps (layers := layers) hrdb
         obtain ⟨ws, hws0, hews⟩ := (mergeSR_envs _ {} (by simp [KeysUniq]) p.id e).2
           (Or.inr ⟨_, hin, es, mem_of_aget hes, he⟩)
         have hws : aget p.id (merged S layers).envs = some ws := hws0
@@ -1668,22 +1821,15 @@ theorem index_eq_flatten {S : Scanners} {layers : List FSLayer} (ht : Tame S lay
           have hfp : p'.fp = "" := by
             rcases mergeSR_pkgs_from _ _ p.id p' (mem_of_aget hMp) with h0 | ⟨rr, hrr, h1⟩
             · simp at h0
-            · rcases hlist rr hrr with h3 | h3 | h3
+            · rcases reps_cases hrr with h3 | ⟨E, hE, h3⟩ | h3
               · exact (os_pkg_origin h3 h1).1
               · exfalso
                 subst h3
-                have hg := aget_of_mem_uniq (langRep_uniq S layers).2 h1
-                obtain ⟨_, g2⟩ := langRep_get S layers p.id
-                rw [hg] at g2
-                cases hlast : lastLang p.id (layers.map (langArts S)) with
-                | none => rw [hlast] at g2; simp at g2
-                | some apl =>
-                  obtain ⟨a, pL⟩ := apl
-                  obtain ⟨lpre, l, lpost, hl, _, hpL, hpid, _⟩ := lastLang_layers hlast
-                  obtain ⟨pre, l2, post, hl2, hc2, _⟩ := (present_some_iff layers d c).1 hpres
-                  have hlmem : l ∈ layers := by rw [hl]; simp
-                  have hl2mem : l2 ∈ layers := by rw [hl2]; simp
-                  exact ht.disjoint d hd l2 hl2mem c hc2 p00 hp00 l hlmem pL hpL (by rw [← hid00, hpid])
+                obtain ⟨l, hlmem, pL, hpL, hpid⟩ := fileRep_id_origin ht hE (Or.inr (aget_isSome_of_mem h1))
+                obtain ⟨pre, l2, post, hl2, hc2, _⟩ := (present_some_iff layers d c).1 hpres
+                have hl2mem : l2 ∈ layers := by rw [hl2]; simp
+                exact ht.disjoint d hd l2 hl2mem c hc2 p00 hp00 l hlmem pL (mem_allFilePkgs.2 ⟨E, hE, hpL⟩)
+                  (by rw [← hid00, hpid])
               · subst h3; simp [whRep] at h1
           have hdel : delOf (layers.map (·.hash)) (merged S layers) p.id p' = false := by
             unfold delOf
@@ -1693,36 +1839,39 @@ theorem index_eq_flatten {S : Scanners} {layers : List FSLayer} (ht : Tame S lay
             | cons e0 es0 => exact pkgDeleted_nofp ht p' hfp _
           have := hex_id S layers ht r hr p.id p' hMp hdel
           refine ⟨ws, by rw [← hid, this]; exact hws, e, hews, by rw [hedb, ← hdb, hpdb]⟩
-    · obtain ⟨⟨q, c⟩, hqc, hat⟩ := List.mem_filterMap.1 hlang
+    · obtain ⟨E, hE, hin⟩ := List.mem_flatMap.1 hlang
+      obtain ⟨⟨q, c⟩, hqc, hat⟩ := List.mem_flatMap.1 hin
       simp only at hat
       have hpres := (mem_flatten_iff layers q c).1 hqc
       obtain ⟨pre, l, post, hl, hfile, hpost⟩ := (present_some_iff layers q c).1 hpres
       have hlmem : l ∈ layers := by rw [hl]; simp
       obtain ⟨hm, hw⟩ := fileOf_some hfile
-      have hpl : p ∈ langPkgs S l := mem_langPkgs.2 ⟨q, c, hm, hw, hat⟩
-      have hfp := (langPkgAt_some hat).1
+      have hpl : p ∈ filePkgs E l := mem_filePkgs.2 ⟨q, c, hm, hw, hat⟩
+      have hfp := (filePkgsAt_mem hat).1
       obtain ⟨a, pL, hlast⟩ := lastLang_exists hlmem hpl
       obtain ⟨lpre, l2, lpost, hl2, ha, hpL, hpid, hlater⟩ := lastLang_layers hlast
       have hl2mem : l2 ∈ layers := by rw [hl2]; simp
-      have hfpL : pL.fp = q := by rw [← hfp]; exact ht.onePath l2 hl2mem l hlmem pL hpL p hpl hpid
+      obtain ⟨hfpL0, hdbL⟩ := ht.onePath E hE l2 hl2mem l hlmem pL hpL p hpl hpid
+      have hfpL : pL.fp = q := by rw [← hfp]; exact hfpL0
       have hsame : pre = lpre ∧ l = l2 ∧ post = lpost := by
         rcases two_decomp (hl.symm.trans hl2) with h | h | h
         · exact h
         · exfalso
-          obtain ⟨q', c', hm', hw', hat'⟩ := mem_langPkgs.1 hpL
-          have hq' : q' = q := by rw [← (langPkgAt_some hat').1]; exact hfpL
+          obtain ⟨q', c', hm', hw', hat'⟩ := mem_filePkgs.1 hpL
+          have hq' : q' = q := by rw [← (filePkgsAt_mem hat').1]; exact hfpL
           subst hq'
           have := fileOf_of_mem (ht.paths l2 hl2mem) hm' hw'
           rw [(hpost l2 h).1] at this; simp at this
         · exfalso; exact hlater l h p hpl rfl
       obtain ⟨_, hl12, hpost12⟩ := hsame
       subst hl12; subst hpost12
-      have hpeq : pL = p := langPkg_unique (ht.paths l hlmem) hpL hpl (by rw [hfpL, hfp])
-      subst hpeq
-      obtain ⟨⟨ws, hws, hmem, hall⟩, hMp⟩ := merged_lang_id ht hlast
+      have hpLall : pL ∈ allFilePkgs S l := mem_allFilePkgs.2 ⟨E, hE, hpL⟩
+      have hhash : l.hash ∉ post.map (·.hash) :=
+        lastLang_hash_last ht hl hpL (fun l' hl' q' hq' => by rw [hpid]; exact hlater l' hl' q' hq')
+      obtain ⟨⟨ws, hws, hmem, hall⟩, hMp⟩ := merged_file_id ht hE hlast
       have hintro : ∀ e' ∈ ws, e'.intro = l.hash := by
         intro e' he'; rw [hall e' he', ha]; rfl
-      have hdel : delOf (layers.map (·.hash)) (merged S layers) pL.id pL = false := by
+      have hdel : delOf (layers.map (·.hash)) (merged S layers) p.id pL = false := by
         cases ws with
         | nil => simp at hmem
         | cons e0 es0 =>
@@ -1731,10 +1880,11 @@ theorem index_eq_flatten {S : Scanners} {layers : List FSLayer} (ht : Tame S lay
           | false => rfl
           | true =>
             exfalso
-            obtain ⟨l', hl', hh⟩ := (pkgDeleted_iff_hidden ht hl hpl hlmem hpl).1 hd
-            rw [hfp, (hpost l' hl').2] at hh; simp at hh
-      have := hex_id S layers ht r hr pL.id pL hMp hdel
-      refine ⟨ws, by rw [← hid, this]; exact hws, langEnv a pL, hmem, by rw [← hdb]; rfl⟩
+            obtain ⟨l', hl', hh⟩ := (pkgDeleted_iff_hidden ht hl hhash hlmem hpLall).1 hd
+            rw [hfpL, (hpost l' hl').2] at hh; simp at hh
+      have := hex_id S layers ht r hr p.id pL hMp hdel
+      refine ⟨ws, by rw [← hid, this]; exact hws, langEnv a pL, hmem, ?_⟩
+      rw [← hdb, ← hdbL]; rfl
 
 /-! ### executable forms of the two sides -/
 
@@ -1765,8 +1915,28 @@ def mk (id db : String) : Pkg :=
 
 def dpkgDB : String := "var/lib/dpkg/status"
 
-/-- toy scanners: an OS database whose content names its packages, and language package files
-    whose content names the package; the language package database is derived from the path -/
+/-- toy language ecosystem: the file content names the package; the package database is derived from the path -/
+def langEco : FileEco where
+  scan := fun q c =>
+    if c = "requests1" then [mk "requests-1" ("lang:" ++ q)]
+    else if c = "requests2" then [mk "requests-2" ("lang:" ++ q)]
+    else if c = "leftpad1" then [mk "left-pad-1" ("lang:" ++ q)]
+    else if c = "leftpad2" then [mk "left-pad-2" ("lang:" ++ q)]
+    else if c = "X" then [mk "X" ("lang:" ++ q)]
+    else []
+
+/-- toy Go ecosystem: an executable carries its standard library, main module and dependencies -/
+def goEco : FileEco where
+  gobin := true
+  scan := fun q c =>
+    if c = "app1" then [mk "stdlib-1.21" ("go:" ++ q), mk "app-1" ("go:" ++ q), mk "dep-1" ("go:" ++ q)]
+    else if c = "app2" then [mk "stdlib-1.22" ("go:" ++ q), mk "app-2" ("go:" ++ q), mk "dep-1b" ("go:" ++ q)]
+    else if c = "tool1" then [mk "stdlib-1.21" ("go:" ++ q), mk "tool-1" ("go:" ++ q)]
+    else if c = "odd" then [mk "odd-1" ("exe:" ++ q)]
+    else []
+
+/-- toy scanners: an OS database whose content names its packages, a language ecosystem, a Go ecosystem;
+    the distribution scanner reads `etc/os-release` -/
 def S0 : Scanners where
   osDbs := [dpkgDB]
   scanDB := fun d c =>
@@ -1774,20 +1944,19 @@ def S0 : Scanners where
     else if c = "bash2+curl" then [mk "bash-2" d, mk "curl-7" d]
     else if c = "X" then [mk "X" d]
     else []
-  scanFile := fun q c =>
-    if c = "requests1" then some (mk "requests-1" ("lang:" ++ q))
-    else if c = "requests2" then some (mk "requests-2" ("lang:" ++ q))
-    else if c = "leftpad1" then some (mk "left-pad-1" ("lang:" ++ q))
-    else if c = "leftpad2" then some (mk "left-pad-2" ("lang:" ++ q))
-    else if c = "X" then some (mk "X" ("lang:" ++ q))
-    else none
+  fecos := [langEco, goEco]
+  scanDist := fun _ _ c => if c = "debian11" then some { id := "debian-11" } else if c = "debian12" then some { id := "debian-12" } else none
 
-/-- install, upgrade (old files whited out), remove, unrelated file: inside the hypothesis -/
+/-- install, upgrade (old files whited out), remove, a Go executable moved and rebuilt, an unrelated
+    file, a layer applied twice: inside the hypothesis -/
 def tameStack : List FSLayer := [
-  { hash := "L0", entries := [(dpkgDB, .file "bash1"), ("site/requests-1.dist-info/METADATA", .file "requests1"),
-      ("app/node_modules/left-pad/package.json", .file "leftpad1")] },
+  { hash := "L0", entries := [(dpkgDB, .file "bash1"), ("etc/os-release", .file "debian12"),
+      ("site/requests-1.dist-info/METADATA", .file "requests1"),
+      ("app/node_modules/left-pad/package.json", .file "leftpad1"), ("usr/bin/app", .file "app1")] },
   { hash := "L1", entries := [(dpkgDB, .file "bash2+curl"), ("site/.wh.requests-1.dist-info", .file ""),
       ("site/requests-2.dist-info/METADATA", .file "requests2")] },
+  { hash := "L2", entries := [("app/node_modules/.wh.left-pad", .file ""), ("srv/readme", .file "hello")] },
+  { hash := "L3", entries := [("usr/bin/.wh.app", .file ""), ("usr/local/bin/app", .file "app2")] },
   { hash := "L2", entries := [("app/node_modules/.wh.left-pad", .file ""), ("srv/readme", .file "hello")] }]
 
 def rpmDB : String := "var/lib/rpm/rpmdb.sqlite"
@@ -1812,9 +1981,23 @@ def overwritten : List FSLayer := [
   { hash := "L0", entries := [("app/node_modules/left-pad/package.json", .file "leftpad1")] },
   { hash := "L1", entries := [("app/node_modules/left-pad/package.json", .file "leftpad2")] }]
 
+/-- a Go executable rebuilt in place with another dependency version -/
+def goRebuilt : List FSLayer := [
+  { hash := "L0", entries := [("usr/bin/app", .file "app1")] },
+  { hash := "L1", entries := [("usr/bin/app", .file "app2")] }]
+
 /-- the same package at two paths -/
 def twoPaths : List FSLayer := [
   { hash := "L0", entries := [("a/m", .file "requests1"), ("b/m", .file "requests1")] }]
+
+/-- two Go executables built with the same toolchain: they share the `stdlib` package -/
+def twoGoBinaries : List FSLayer := [
+  { hash := "L0", entries := [("usr/bin/app", .file "app1"), ("usr/bin/tool", .file "tool1")] }]
+
+/-- … and the one whose environment survived is deleted later -/
+def twoGoBinariesOneDeleted : List FSLayer := [
+  { hash := "L0", entries := [("usr/bin/app", .file "app1"), ("usr/bin/tool", .file "tool1")] },
+  { hash := "L1", entries := [("usr/bin/.wh.tool", .file "")] }]
 
 /-- the OS package database deleted by a later layer -/
 def dbRemoved : List FSLayer := [
@@ -1840,6 +2023,36 @@ def rootOpaque : List FSLayer := [
 def dirReplaced : List FSLayer := [
   { hash := "L0", entries := [("a/x", .file "requests1")] },
   { hash := "L1", entries := [("a", .file "not a directory any more")] }]
+
+/-- two different layers under one digest (a digest collision: the layer sorter cannot tell them apart) -/
+def digestCollision : List FSLayer := [
+  { hash := "L0", entries := [("a/x", .file "requests1")] },
+  { hash := "L0", entries := [("a/.wh.x", .file "")] }]
+
+/-- a layer listing one path twice (the flattened image takes the first entry, the package scan sees both) -/
+def pathTwice : List FSLayer := [
+  { hash := "L0", entries := [("a/x", .file "requests1"), ("a/x", .file "requests2")] }]
+
+/-- a Go executable whose packages carry a database without the `go:` prefix -/
+def goOddDb : List FSLayer := [
+  { hash := "L0", entries := [("usr/bin/odd", .file "odd")] }]
+
+/-- two language ecosystems whose scanners find the same (name, version): pypi `six` and npm `six` -/
+def pyEco : FileEco where
+  scan := fun q c => if c = "six-py" then [mk "six-1" ("python:" ++ q)] else []
+
+def jsEco : FileEco where
+  scan := fun q c => if c = "six-js" then [mk "six-1" ("nodejs:" ++ q)] else []
+
+def S2 : Scanners := { S0 with osDbs := [], fecos := [pyEco, jsEco] }
+
+/-- the same scanners, the coalescers finishing in the other order -/
+def S2' : Scanners := { S0 with osDbs := [], fecos := [jsEco, pyEco] }
+
+/-- the python one is deleted by a later layer -/
+def crossEco : List FSLayer := [
+  { hash := "L0", entries := [("a/p", .file "six-py"), ("b/j", .file "six-js")] },
+  { hash := "L1", entries := [("a/.wh.p", .file "")] }]
 
 /-- the two sides disagree on (id, db): reported but not in the image -/
 def reportedNotInImage (S : Scanners) (layers : List FSLayer) (id db : String) : Prop :=
